@@ -35,13 +35,33 @@ RULE = (
     'angles beyond one turn, negative frequencies and frequencies in other units, swapped min/max, far-away '
     'positions, zero / non-finite / masked values), each facet a forced class, each argument as a plain object, as a '
     'contiguous slice (scalars: a 0-d element) and as a strided slice of a larger caller-owned buffer whose '
-    'fingerprint is compared as well, (3) thorough only: the repository test-suite with the monitor armed. '
+    'fingerprint is compared as well; (2c) the same grid over the other things a caller owns or chooses: '
+    'CONFIGURATION OBJECTS (FitParameters / FitRequirements fields holding negative, zero, in-range, one, above-one, '
+    'large, NaN, inf values and other numeric types; Cylinder / Material / user-made ScatteringParams; Person / '
+    'Beamline / Source / Software models and CIF schemas handed to the CIF builder; SQW model dataclasses), VALUE '
+    'CLASSES OF VARIANCES (some / all negative, zero, NaN, inf, subnormal / huge; float64 and float32) and MASKS '
+    '(all-False, all-True, several; per-pixel, bin-level and event-level on binned data) for every entry point that '
+    'takes data, operands / coordinates with variances, caller dims named like dims used inside the package, every '
+    'calling convention of the signature and the kernels as transform_coords graph nodes, numpy scalars / str-Enum / '
+    'IntEnum members for str / int / bool parameters, one-shot iterators for collections, results fed back and the '
+    'same objects used again, stand-in subclasses / duck types overriding the polymorphic methods, and display / '
+    'copy / deepcopy / pickle / == of package objects between two identical computations (object unchanged and same '
+    'result); every case is run a SECOND time with the very same objects in one of its layouts (also after a call '
+    'that raised); one shard holds the sizes beyond the thresholds in the code (20_000_000 points x detectors, SQW '
+    'pixel chunks of 8192) and generic large sizes (2**20+7, 3x400001); a fingerprint probe changes one field of '
+    'every kind of object handed over and demands a different fingerprint (else inconclusive), '
+    '(3) thorough only: the repository test-suite with the monitor armed. '
     'oracle B (history): for each family of factories/lookups a pristine reference is taken, then ALL sequences '
-    'of length <= 3 over {call factory i, mutate the k-th earlier result through its public surface} are '
+    'of length <= 3 over {call factory i, mutate the k-th earlier result through its public surface, display / copy / '
+    'pickle / compare the k-th earlier result} are '
     'enumerated and after each sequence every factory must still return its pristine value. '
     'distinct = (function, argument layout) for A, sequences for B'
 )
 ASSUMPTIONS = [
+    'a stand-in object (instance of a class defined by the caller that overrides methods the package calls) is judged '
+    'by the state its package base class declares or maintains (dataclass / model fields, slots, attributes assigned '
+    'by the base class methods), a pure duck type by its scipp / numpy valued attributes: what the caller\'s own '
+    'overriding methods keep on the instance is the caller\'s doing, not a modification by the package',
     'file-like objects and explicitly documented sinks/self-mutators (builders add_*, __init__, setters) are exempt',
     'the history oracle covers the object kinds the property names: graph factories, model and builder '
     'combinators, bundled-table lookups; persistent sharing inside FrameSequence is reported, not judged',
@@ -70,10 +90,135 @@ PYTEST_DIRS = ['tests/conversion', 'tests/convert_test.py', 'tests/beamline_comp
 
 
 # =============================================================== oracle A ===
+_KNOWN_LIBS = {'scippneutron', 'scipp', 'scippnexus', 'numpy', 'builtins', 'pydantic', 'pydantic_core', 'types', 'collections',
+               'datetime', 'pathlib', 'io', 'enum', 'decimal', 'fractions', 'uuid', 'typing', 'functools', 'itertools',
+               'h5py', 'matplotlib', 'scipy', 'tempfile', '_io', 'array', 'dataclasses', 'abc', 'os', 'posixpath'}
+
+
+def _is_stand_in(obj):
+    """An instance of a class defined by the caller (here: by a workload), not by the package or a library."""
+    t = type(obj)
+    return (getattr(t, '__module__', None) or 'builtins').split('.')[0] not in _KNOWN_LIBS
+
+
+_DECLARED = {}
+
+
+def _declared_fields(t):
+    """Names of the instance state the package's own classes among the bases of ``t`` declare or maintain: dataclass
+    fields, pydantic model fields, slots, and every attribute one of their methods assigns (``self.x = ...``)."""
+    import dataclasses
+    import dis
+    import types
+
+    if t in _DECLARED:
+        return _DECLARED[t]
+    names = set()
+    for base in t.__mro__:
+        if (getattr(base, '__module__', '') or '').split('.')[0] != 'scippneutron':
+            continue
+        if dataclasses.is_dataclass(base):
+            names.update(f.name for f in dataclasses.fields(base))
+        names.update(getattr(base, 'model_fields', ()) or ())
+        slots = base.__dict__.get('__slots__', ())
+        names.update([slots] if isinstance(slots, str) else slots)
+        for member in base.__dict__.values():
+            for f in (member, getattr(member, '__func__', None), getattr(member, 'fget', None), getattr(member, 'fset', None)):
+                if isinstance(f, types.FunctionType):
+                    names.update(i.argval for i in dis.get_instructions(f.__code__) if i.opname == 'STORE_ATTR')
+    _DECLARED[t] = sorted(names)
+    return _DECLARED[t]
+
+
+def judged_view(obj, depth=0):
+    """What of an argument is the package's business.  The package calls the methods of the objects it is given; a
+    stand-in (a caller-defined subclass or duck type overriding such a method) runs the CALLER's code there, and what
+    that code keeps on its own instance (a call counter, a record of what it returned) is not a modification made
+    by the package.  For a stand-in derived from a package class the judged state is the state the package class
+    declares or maintains (see _declared_fields); for a pure duck type it is every scipp / numpy valued attribute it
+    carries.  Everything else -- package objects, scipp objects, containers, plain values -- is judged in full."""
+    if depth > 3:
+        return obj
+    if type(obj) in (list, tuple):
+        return type(obj)(judged_view(x, depth + 1) for x in obj)
+    if type(obj) is dict:
+        return {k: judged_view(v, depth + 1) for k, v in obj.items()}
+    if isinstance(obj, sc.Variable | sc.DataArray | sc.Dataset | sc.DataGroup | np.ndarray) or not _is_stand_in(obj):
+        return obj
+    t = type(obj)
+    declared = _declared_fields(t)
+    state = {}
+    if declared:
+        for nme in declared:
+            try:
+                state[nme] = judged_view(object.__getattribute__(obj, nme), depth + 1)
+            except AttributeError:
+                state[nme] = '<unset>'
+    else:
+        for nme, v in sorted((getattr(obj, '__dict__', None) or {}).items()):
+            if isinstance(v, sc.Variable | sc.DataArray | sc.Dataset | sc.DataGroup | np.ndarray):
+                state[nme] = v
+    return ('stand-in', t.__qualname__, state)
+
+
+def fpv(obj):
+    return fp(judged_view(obj))
+
+
+class _Monitor(MutationMonitor):
+    """rv.mutmon.MutationMonitor with stand-in objects fingerprinted through judged_view()."""
+
+    def _mk_start(self, qn):
+        def on_start(ev):
+            self.events += 1
+            self.reached.add(qn)
+            if ev.depth != 0:
+                return None
+            pre = {}
+            for k, v in ev.args.items():
+                if hasattr(v, '__next__'):  # a one-shot iterator: being consumed is what it is handed over for
+                    pre[k] = None
+                    continue
+                try:
+                    pre[k] = fpv(v)
+                except Exception:  # noqa: BLE001
+                    pre[k] = None
+            return pre
+        return on_start
+
+    def _mk_return(self, qn):
+        from rv import mutmon as MM
+
+        exempt_self = MM._self_exempt(qn)
+        last = qn.rsplit('.', 1)[-1]
+
+        def on_return(ev):
+            pre = ev.upre
+            if pre is None:
+                return
+            self.judged += 1
+            for k, before in pre.items():
+                if before is None or (exempt_self and k in ('self', 'cls')) or (last, k) in MM.SINKS:
+                    continue
+                try:
+                    after = fpv(ev.args[k])
+                except Exception:  # noqa: BLE001
+                    continue
+                if after != before:
+                    self.report(
+                        'argument_mutated',
+                        f'{qn} modified its argument {k!r}' + (' (while raising)' if ev.exc is not None else ''),
+                        {'function': qn, 'argument': k, 'origin': self.origin,
+                         'after': describe(ev.args[k]), 'raised': repr(ev.exc) if ev.exc else None},
+                        function=qn.split('scippneutron.')[-1], argument=k,
+                    )
+        return on_return
+
+
 def make_monitor(ctx, origin):
     def report(kind, what, case, **keys):
         ctx.violation(kind, what, dict(case, workload=origin['v']), **keys)
-    mm = MutationMonitor(report)
+    mm = _Monitor(report)
     mm.install()
     return mm
 
@@ -361,6 +506,31 @@ def alias_grid(ctx, shard):
 # (for scalars: a 0-d element) of a larger caller-owned buffer.  The only expectation is the property
 # itself: whatever the call does (including raising), every caller-owned object is bit-identical afterwards.
 _N = 5
+_LAY3 = ('plain', 'slice', 'strided')
+
+
+class _Verdict(Exception):
+    """Raised by a case that judged something itself (a result that changed between two identical calls)."""
+
+    def __init__(self, kind, what, **keys):
+        super().__init__(what)
+        self.kind, self.what, self.keys = kind, what, keys
+
+
+def _each(*thunks):
+    """Run every thunk even if an earlier one raises; the first exception is re-raised at the end."""
+    def run():
+        first = None
+        for t in thunks:
+            try:
+                t()
+            except _Verdict:
+                raise
+            except Exception as e:  # noqa: BLE001
+                first = first or e
+        if first is not None:
+            raise first
+    return run
 
 
 def _vec(v, unit='m'):
@@ -408,11 +578,20 @@ def _value_cases():  # noqa: C901
     Variable / DataArray in the current layout, ``O(obj)`` registers any other caller-owned object."""
     cases = []
 
-    def case(entry, facet):
+    def case(entry, facet, layouts=None):
         def deco(f):
+            # layouts=None: every buffer layout; a tuple: only those (cases whose caller-owned objects are
+            # configuration objects / plain Python values, for which a buffer layout means nothing)
+            f.layouts = layouts
             cases.append((entry, facet, f))
             return f
         return deco
+
+    rot = itertools.count()
+
+    def one_layout():
+        """One buffer layout per case, cycling through all of them over the cases that ask for one."""
+        return (_LAY3[next(rot) % len(_LAY3)],)
 
     g_std = [0.0, -9.80665, 0.0]
     gravities = {  # everything the gravity kernels do with `gravity` goes through gravity / |gravity|
@@ -1287,23 +1466,1240 @@ def _value_cases():  # noqa: C901
         da = A(masked(powder(rng), rng, nan_at=(2,)))
         return lambda: P.cif.CIF('a').with_reduced_powder_data(da).save(io.StringIO())
 
+    # ===================================================== configuration objects are arguments, too
+    # Everything a caller hands over that is not a scipp object -- parameter / requirement dataclasses, shape and
+    # material descriptions, metadata models, file-format model dataclasses -- is caller-owned state as well.  Code
+    # that validates, clamps, normalises or fills in defaults of such an object only writes for field values that
+    # are NOT already what it wants, so every field gets every kind of value a caller can put there.
+    nan, inf = float('nan'), float('inf')
+    config_values = {
+        'negative': -0.5, 'zero': 0.0, 'in-range': 0.25, 'one': 1.0, 'just-above-one': 1.0 + 1e-9, 'large': 7.5,
+        'nan': nan, 'inf': inf, 'np.float64-negative': np.float64(-0.25),
+    }
+    config_typed = {  # the same fields holding every numeric type a caller may use, signed zeros, -inf
+        'FitParameters': [dict(guess_background_fraction=np.float32(0.5), neighbor_separation_factor=2),
+                          dict(guess_background_fraction=True, neighbor_separation_factor=np.int64(-1)),
+                          dict(guess_background_fraction=-0.0, neighbor_separation_factor=-inf),
+                          dict(guess_background_fraction=1, neighbor_separation_factor=-1e-3)],
+        'FitRequirements': [dict(min_p_value=np.float32(0.01), max_peak_width_factor=2, min_peak_width_factor=np.int64(1)),
+                            dict(min_p_value=False, max_peak_width_factor=-0.0, min_peak_width_factor=-inf),
+                            dict(min_p_value=0, max_peak_width_factor=np.float64(inf), min_peak_width_factor=True)],
+    }
+    config_fields = {'FitParameters': ('guess_background_fraction', 'neighbor_separation_factor'),
+                     'FitRequirements': ('min_p_value', 'max_peak_width_factor', 'min_peak_width_factor')}
+
+    def fit_with(P, A, O, rng, fpar, freq, estimates=(4.0, 6.5), **kw):
+        """fit_peaks through both window paths (scalar width: windows are derived with the fit parameters;
+        2d: windows are taken as given) with explicit, caller-owned configuration objects."""
+        da, e = A(spectrum(rng)), A(_arr(list(estimates), 'angstrom'))
+        w0 = A(_s(2.0, 'angstrom'))
+        w2 = A(win2d([[c - 1.0, c + 1.0] for c in estimates]))
+        kw = {'background': 'linear', 'peak': 'gaussian', **kw}
+        return _each(*[lambda w=w: P.peaks.fit_peaks(da, peak_estimates=e, windows=w, fit_parameters=fpar,
+                                                     fit_requirements=freq, **kw) for w in (w0, w2)])
+
+    for cname, fields in config_fields.items():
+        for field in fields:
+            for vname, val in config_values.items():
+                @case('fit_peaks', f'config:{cname}.{field}={vname}', layouts=one_layout())
+                def _(P, A, O, rng, cname=cname, field=field, val=val):
+                    fpar = O(P.peaks.FitParameters(**({field: val} if cname == 'FitParameters' else {})))
+                    freq = O(P.peaks.FitRequirements(**({field: val} if cname == 'FitRequirements' else {})))
+                    return fit_with(P, A, O, rng, fpar, freq)
+
+    for cname, sets in config_typed.items():
+        for i, kw in enumerate(sets):
+            @case('fit_peaks', f'config:{cname}-fields-of-other-numeric-types-{i}', layouts=one_layout())
+            def _(P, A, O, rng, cname=cname, kw=kw):
+                fpar = O(P.peaks.FitParameters(**(kw if cname == 'FitParameters' else {})))
+                freq = O(P.peaks.FitRequirements(**(kw if cname == 'FitRequirements' else {})))
+                return fit_with(P, A, O, rng, fpar, freq)
+
+    @case('fit_peaks', 'config:explicit-defaults-and-None')
+    def _(P, A, O, rng):
+        fpar, freq = O(P.peaks.FitParameters()), O(P.peaks.FitRequirements())
+        return _each(fit_with(P, A, O, rng, fpar, freq), fit_with(P, A, O, rng, None, freq),
+                     fit_with(P, A, O, rng, fpar, None))
+
+    @case('fit_peaks', 'config:all-fields-out-of-range')
+    def _(P, A, O, rng):
+        fpar = O(P.peaks.FitParameters(guess_background_fraction=-3.0, neighbor_separation_factor=-2.0))
+        freq = O(P.peaks.FitRequirements(min_p_value=-1.0, max_peak_width_factor=-1.0, min_peak_width_factor=1e9))
+        return fit_with(P, A, O, rng, fpar, freq)
+
+    @case('fit_peaks', 'config:subclass-and-duck-typed-stand-in')
+    def _(P, A, O, rng):
+        import types
+
+        class MyParameters(P.peaks.FitParameters):  # a subclass has a __dict__ next to the slots
+            def __init__(self, note, **kw):
+                super().__init__(**kw)
+                self.note = note
+
+        sub = O(MyParameters('mine', neighbor_separation_factor=-0.5, guess_background_fraction=1.5))
+        duck = O(types.SimpleNamespace(guess_background_fraction=-0.2, neighbor_separation_factor=1.5))
+        duck_req = O(types.SimpleNamespace(min_p_value=2.0, max_peak_width_factor=-1.0, min_peak_width_factor=0.0))
+        return _each(fit_with(P, A, O, rng, sub, O(P.peaks.FitRequirements())),
+                     fit_with(P, A, O, rng, duck, duck_req))
+
+    @case('fit_peaks', 'config:caller-owned-model-instances')
+    def _(P, A, O, rng):
+        M = P.peaks.model
+        bkg = O([M.PolynomialModel(degree=1, prefix='mine_'), M.PolynomialModel(degree=2)])
+        pk = O((M.GaussianModel(prefix='peak_'), M.LorentzianModel(prefix='')))
+        single = O(M.GaussianModel(prefix='bkg_'))  # prefixed like the names fit_peaks hands out itself
+        fpar, freq = O(P.peaks.FitParameters()), O(P.peaks.FitRequirements(min_p_value=0.999))  # the first model rarely suffices
+        return _each(fit_with(P, A, O, rng, fpar, freq, background=bkg, peak=pk),
+                     fit_with(P, A, O, rng, fpar, freq, background=bkg[0], peak=single))
+
+    # ---- sample shape / material descriptions
+    shape_sets = {  # radius, height (cm), centre unit, axis
+        'cylinder-radius-zero': dict(radius=0.0), 'cylinder-radius-negative': dict(radius=-0.5),
+        'cylinder-height-zero': dict(height=0.0), 'cylinder-height-negative': dict(height=-1.0),
+        'cylinder-radius-nan': dict(radius=nan), 'cylinder-axis-zero-length': dict(axis=[0.0, 0.0, 0.0]),
+        'cylinder-axis-with-length-unit': dict(axis=[0.0, 2.0, 0.0], axis_unit='cm'),
+        'cylinder-mixed-units': dict(radius_unit='mm', height_unit='m', radius=5.0, height=0.01),
+    }
+    material_sets = {
+        'material-density-negative': dict(density=-0.07), 'material-density-zero': dict(density=0.0),
+        'material-density-nan': dict(density=nan), 'material-density-other-unit': dict(density=7e22, unit='1/cm^3'),
+        'material-density-with-variance': dict(density=0.07, variance=1e-4),
+        'material-user-made-scattering-params': dict(density=0.07, custom=True),
+    }
+
+    def cylinder2(P, A, radius=0.5, height=1.0, axis=(0.0, 1.0, 0.0), axis_unit='one', radius_unit='cm',
+                  height_unit='cm', cls=None):
+        return (cls or P.Cylinder)(symmetry_line=A(_vec(axis, axis_unit)), center_of_base=A(_vec([0.0, -0.5, 0.0], 'cm')),
+                                   radius=A(_s(radius, radius_unit)), height=A(_s(height, height_unit)))
+
+    def material2(P, A, O, density=0.07, unit='1/angstrom^3', variance=None, custom=False, cls=None):
+        sp = P.ScatteringParams.for_isotope('V')
+        if custom:  # a caller may describe a material that is not in the table
+            sp = O(P.ScatteringParams(
+                isotope='mine', coherent_scattering_length_re=A(sc.scalar(3.0, variance=0.01, unit='fm')),
+                coherent_scattering_length_im=None, incoherent_scattering_length_re=None,
+                incoherent_scattering_length_im=None, coherent_scattering_cross_section=A(_s(-1.0, 'barn')),
+                incoherent_scattering_cross_section=A(sc.scalar(5.0, variance=0.2, unit='barn')),
+                total_scattering_cross_section=A(_s(5.1, 'barn')),
+                absorption_cross_section=A(sc.scalar(nan, variance=-1.0, unit='barn'))))
+        d = sc.scalar(float(density), unit=unit) if variance is None else sc.scalar(float(density), variance=variance, unit=unit)
+        return (cls or P.Material)(scattering_params=sp, effective_sample_number_density=A(d))
+
+    def transmission2(P, A, O, rng, cyl, mat):
+        cyl, mat = O(cyl), O(mat)
+        b, w = A(_vec([0.0, 0.1, 3.0], 'one')), A(sc.linspace('wavelength', 0.5, 5.0, 3, unit='angstrom'))
+        d = A(_vecs(rng.normal(size=(4, 3)) * 100, 'cm'))
+        return lambda: P.compute_transmission_map(cyl, mat, beam_direction=b, wavelength=w, detector_position=d,
+                                                  quadrature_kind='cheap')
+
+    for facet, kw in shape_sets.items():
+        @case('compute_transmission_map', 'config:' + facet)
+        def _(P, A, O, rng, kw=kw):
+            return transmission2(P, A, O, rng, cylinder2(P, A, **kw), material2(P, A, O))
+
+        @case('Cylinder', 'config:' + facet, layouts=one_layout())
+        def _(P, A, O, rng, kw=kw):
+            cyl = O(cylinder2(P, A, **kw))
+            start, direction = A(_vecs(rng.normal(size=(4, 3)) * 0.3, 'cm')), A(_vecs(rng.normal(size=(4, 3)), 'one'))
+            return _each(lambda: cyl.beam_intersection(start, direction), lambda: cyl.quadrature('cheap'),
+                         lambda: cyl.quadrature('medium'), lambda: (cyl.center, cyl.volume))
+
+    for facet, kw in material_sets.items():
+        @case('compute_transmission_map', 'config:' + facet)
+        def _(P, A, O, rng, kw=kw):
+            return transmission2(P, A, O, rng, cylinder2(P, A), material2(P, A, O, **kw))
+
+        @case('Material.attenuation_coefficient', 'config:' + facet, layouts=one_layout())
+        def _(P, A, O, rng, kw=kw):
+            mat, wl = O(material2(P, A, O, **kw)), A(_arr([0.5, 1.8, 5.0], 'angstrom', dim='wavelength'))
+            return lambda: mat.attenuation_coefficient(wl)
+
+    @case('compute_transmission_map', 'config:subclasses-overriding-the-polymorphic-methods')
+    def _(P, A, O, rng):
+        seen = []
+
+        class ThickCylinder(P.Cylinder):
+            def beam_intersection(self, start, direction):
+                seen.append('shape')
+                return super().beam_intersection(start, direction) * 2.0
+
+        class GreyMaterial(P.Material):
+            def attenuation_coefficient(self, wavelength):
+                seen.append('material')
+                return super().attenuation_coefficient(wavelength) * 0.5
+
+        return transmission2(P, A, O, rng, cylinder2(P, A, cls=ThickCylinder), material2(P, A, O, cls=GreyMaterial))
+
+    # ---- metadata models handed to the CIF builder
+    def people(P):
+        Person = P.metadata.Person
+        return {
+            'plain': Person(name='Jane Doe'),
+            'contact': Person(name='Doe, John', orcid_id='0000-0002-1825-0097', email='john@example.com',
+                              corresponding=True, role='Principal investigator', address='1 Main St\nTown'),
+            'non-ascii': Person(name='Žofia Ångström-Müller', affiliation='Laboratoire Léon', role='données', owner=False),
+            'empty-strings': Person(name='', role='', address='', affiliation=''),
+            'quotes': Person(name="O'Neil \"Q\" ; #x", role="it's", corresponding=True),
+        }
+
+    author_sets = {
+        'one-regular': ['plain'], 'one-contact': ['contact'], 'contact-and-regular-with-roles': ['contact', 'non-ascii', 'plain'],
+        'same-object-twice': ['contact', 'contact'], 'empty-strings-and-quotes': ['empty-strings', 'quotes'],
+        'none': [],
+    }
+    for facet, names in author_sets.items():
+        @case('CIF.with_authors+save', 'config:authors-' + facet, layouts=('plain',))
+        def _(P, A, O, rng, names=names):
+            ppl = people(P)
+            authors = O([ppl[n] for n in names])
+            base = O(P.cif.CIF('base', comment='c'))
+
+            def f():
+                c1 = base.with_authors(*authors)
+                c2 = c1.with_authors(*authors[:1])  # builders derived from builders: the same objects again
+                for c in (c1, c2, c1):
+                    c.save(io.StringIO())
+            return f
+
+    def beamlines(P):
+        B, S = P.metadata.Beamline, P.metadata.Source
+        return {
+            'minimal': (B(name='DREAM'), None),
+            'full-with-ess-source': (B(name='DREAM', facility='ESS', site='Lund', revision='2.1'), P.metadata.ESS_SOURCE),
+            'own-source-xray': (B(name='X', facility=None, site='S'),
+                                S(name=None, source_type=P.metadata.SourceType.SynchrotronXraySource,
+                                  probe=P.metadata.RadiationProbe.Xray)),
+            'reactor-non-ascii': (B(name='Ünïcode', facility='Fäc'),
+                                  S(name='Réacteur', source_type=P.metadata.SourceType.ReactorNeutronSource,
+                                    probe=P.metadata.RadiationProbe.Neutron)),
+        }
+
+    for facet in ('minimal', 'full-with-ess-source', 'own-source-xray', 'reactor-non-ascii'):
+        @case('CIF.with_beamline+save', 'config:beamline-' + facet, layouts=('plain',))
+        def _(P, A, O, rng, facet=facet):
+            bl, src = beamlines(P)[facet]
+            O(bl)
+            if src is not None:
+                O(src)
+            base = O(P.cif.CIF('base'))
+            return _each(lambda: base.with_beamline(bl, src, comment='where').save(io.StringIO()),
+                         lambda: base.with_beamline(bl, source=src).with_beamline(bl).save(io.StringIO()))
+
+    @case('CIF.with_reducers+save', 'config:reducers-from-software-models', layouts=('plain',))
+    def _(P, A, O, rng):
+        sw = O([P.metadata.Software(name='ScippNeutron', version='24.11.0', url='https://example.org', doi=None),
+                P.metadata.Software(name='ünï', version='')])
+        names = O([s.name_version for s in sw] + [s.compact_repr for s in sw])
+        base = O(P.cif.CIF('base'))
+        return lambda: base.with_reducers(*names).with_reducers(names[0]).save(io.StringIO())
+
+    @case('Chunk/Loop/Block', 'config:schemas-given-by-the-caller', layouts=('plain',))
+    def _(P, A, O, rng):
+        mine = O(P.cif.CIFSchema(name='mine.dic', version='0.0.1', location='https://example.org/mine.dic'))
+        schemas = O({mine, P.cif.CORE_SCHEMA})
+        aslist = O([mine, P.cif.PD_SCHEMA, mine])
+        content = O({'mine.x': 1, 'mine.y': A(sc.scalar(1.5, variance=0.04, unit='m'))})
+
+        def f():
+            ch = P.cif.Chunk(content, schema=schemas)
+            lp = P.cif.Loop({'mine.c': A(sc.arange('i', 3.0, unit='s'))}, schema=mine)
+            P.cif.save_cif(io.StringIO(), P.cif.Block('b', [ch, lp], schema=aslist))
+        return f
+
+    # ---- SQW model dataclasses handed to the SQW builder
+    def sqw_models(P, A, O, freq=14.0, n_bins=(3, 1, 2, 2), angles=(90.0, 90.0, 120.0), angle_unit='deg'):
+        S = P.sqw
+        src = O(S.SqwIXSource(name='src', target_name='tgt', frequency=A(_s(freq, 'Hz'))))
+        inst = O(S.SqwIXNullInstrument(name='inst', source=src))
+        sample = O(S.SqwIXSample(name='s', lattice_spacing=A(_vec([4.0, 2.0, 3.0], 'angstrom')),
+                                 lattice_angle=A(_vec(angles, angle_unit))))
+        dnd = O(S.SqwDndMetadata(
+            axes=S.SqwLineAxes(
+                title='axes', label=['x', 'y', 'z', 'dE'],
+                img_scales=[A(_s(1.0, '1/angstrom')), A(_s(2.0, '1/nm')), A(_s(-0.5, '1/angstrom')), A(_s(0.2, 'eV'))],
+                img_range=[A(_arr([540.0, -30.0], '1/nm', dim='range')), A(_arr([-0.5, 6.7], '1/angstrom', dim='range')),
+                           A(_arr([-5.6, -2.4], '1/angstrom', dim='range')), A(_arr([6.0, 9.1], 'meV', dim='range'))],
+                n_bins_all_dims=A(sc.array(dims=['axis'], values=list(n_bins), unit=None)),
+                single_bin_defines_iax=A(sc.array(dims=['axis'], values=[False, True, True, True])),
+                dax=A(sc.array(dims=['axis'], values=[2, 1, 0, 3], unit=None)),
+                offset=[A(_s(1.0, '1/nm')), A(_s(50.0, '1/angstrom')), A(_s(0.0, '1/angstrom')), A(_s(0.0, 'meV'))],
+                changes_aspect_ratio=True),
+            proj=S.SqwLineProj(
+                lattice_spacing=A(_vec([2.1, 2.1, 2.5], 'angstrom')), lattice_angle=A(_vec([np.pi / 2, 7.0, -1.0], 'rad')),
+                offset=[A(_s(1.0, '1/nm')), A(_s(50.0, '1/angstrom')), A(_s(0.0, '1/angstrom')), A(_s(0.0, 'meV'))],
+                title='proj', label=['x', 'y', 'z', 'dE'], u=A(_vec([0.0, 30.0, 0.0], '1/angstrom')),
+                v=A(_vec([1e-3, 0.0, 0.0], '1/nm')), w=None, non_orthogonal=False, type='aaa')))
+        return inst, sample, dnd
+
+    def sqw_pixels(rng, npx=5, var=None, dim='obs'):
+        v = rng.random(npx) if var is None else np.resize(np.asarray(var, dtype=float), npx)
+        return sc.DataArray(
+            sc.array(dims=[dim], values=rng.normal(size=npx), variances=v, unit='count'),
+            coords={**{f'u{i}': _arr(rng.normal(size=npx), '1/angstrom', dim=dim) for i in (1, 2, 3)},
+                    'u4': _arr(rng.normal(size=npx), 'meV', dim=dim),
+                    **{k: sc.array(dims=[dim], values=np.arange(npx) % 2, unit=None, dtype='int64')
+                       for k in ('idet', 'irun', 'ien')}})
+
+    def sqw_experiments(P, A, n=2, run_id=int, en_dim='energy_transfer'):
+        S = P.sqw
+        return [S.SqwIXExperiment(
+            run_id=run_id(r), efix=A(_s(1.5 + r, 'meV')), emode=S.EnergyMode.direct,
+            en=A(_arr([1.0, 2.5, 4.0], 'meV', dim=en_dim)), psi=A(_s(0.3, 'rad')), u=A(_vec([0.0, 1.0, 0.5], 'one')),
+            v=A(_vec([1.0, 1.0, 0.0], 'one')), omega=A(_s(0.1, 'rad')), dpsi=A(_s(0.2, 'rad')), gl=A(_s(0.3, 'rad')),
+            gs=A(_s(-0.4, 'rad')), filename=f'run{r}.nxspe', filepath='/data') for r in range(n)]
+
+    for facet, kw in {'full-builder': {}, 'source-frequency-negative': dict(freq=-14.0),
+                      'source-frequency-nan': dict(freq=nan), 'single-bin-everywhere': dict(n_bins=(1, 1, 1, 1)),
+                      'lattice-angles-beyond-turn[rad]': dict(angles=(7.0, -1.0, 400.0), angle_unit='rad')}.items():
+        for order in ('native', 'big'):
+            @case('SqwBuilder.create', f'config:{facet}[{order}]', layouts=one_layout())
+            def _(P, A, O, rng, kw=kw, order=order):
+                inst, sample, dnd = sqw_models(P, A, O, **kw)
+                exps, pix = O(sqw_experiments(P, A)), A(sqw_pixels(rng))
+
+                def build():
+                    b = P.sqw.Sqw.build(io.BytesIO(), title='t', byteorder=order)
+                    b = b.add_default_instrument(inst).add_default_sample(sample).add_pixel_data(pix, experiments=exps)
+                    b.add_empty_dnd_data(dnd).add_empty_detector_params().create()
+                return build
+
+    # ===================================================== value classes of variances and masks
+    # ``.values`` / ``.variances`` of a scipp object are WRITABLE numpy views of the caller's buffer: code that
+    # cleans up what it reads through them (clip negative variances, replace non-finite errors, apply a mask by
+    # zeroing) writes into the caller's data, and only for the values that need cleaning.  Every entry point that
+    # takes data with variances gets every class of variance values; every one that takes a data array every class
+    # of masks.
+    var_classes = {
+        'some-negative': [0.7, -3e-9, 0.5, 0.0, -1e-12],
+        'some-negative-none-zero': [0.7, -3e-9, 0.5, -1e-12, 0.05],
+        'all-negative': [-1.0, -0.25, -1e-300, -7.0],
+        'all-zero': [0.0, -0.0],
+        'nan': [0.1, nan, 0.3],
+        'inf': [0.1, inf, 0.3, -inf],
+        'subnormal-and-huge': [5e-324, 1e308, 1e-310],
+    }
+
+    def with_var(obj, cls, dtype='float64'):
+        obj = obj.copy()
+        if str(obj.dtype) != dtype:
+            obj = obj.astype(dtype)
+        obj.variances = np.resize(np.asarray(var_classes[cls]).astype(dtype), obj.shape)
+        return obj
+
+    mask_classes = {
+        'all-false': lambda n, rng: {'m': np.zeros(n, bool)},
+        'all-true': lambda n, rng: {'m': np.ones(n, bool)},
+        'several-masks': lambda n, rng: {'a': rng.random(n) < 0.3, 'b': np.arange(n) % 7 == 0, 'none': np.zeros(n, bool)},
+    }
+
+    def with_masks(da, cls, rng, dim=None):
+        da = da.copy()
+        dim = dim or da.dims[-1]
+        for k, m in mask_classes[cls](da.sizes[dim], rng).items():
+            da.masks[k] = sc.array(dims=[dim], values=m)
+        return da
+
+    def clean_fit(P, rng):
+        da = spectrum(rng)
+        return da, P.peaks.fit_peaks(da, peak_estimates=_arr([4.0, 6.5], 'angstrom'), windows=_s(2.0, 'angstrom'),
+                                     background='linear', peak='gaussian')
+
+    def calibration():
+        return sc.DataArray(sc.array(dims=['cal'], values=[3.0, -1.0, 0.0, 2.5]),
+                            coords={'power': sc.array(dims=['cal'], values=[2, 0, 1, 3])})
+
+    # consumers of a 1d data array: name -> (make data, call)
+    def consumers(P):
+        def sqw_create(rng, pix, A, O):
+            exps = O(sqw_experiments(P, A))
+            return lambda: P.sqw.Sqw.build(io.BytesIO(), byteorder='little').add_pixel_data(
+                pix, experiments=exps).create()
+
+        return {
+            'save_xye': (lambda rng: powder(rng), lambda rng, da, A, O: lambda: P.save_xye(io.StringIO(), da)),
+            'CIF.with_reduced_powder_data+save': (
+                lambda rng: powder(rng),
+                lambda rng, da, A, O: lambda: P.cif.CIF('a').with_reduced_powder_data(da).save(io.StringIO())),
+            'CIF.with_powder_calibration+save': (
+                lambda rng: calibration(),
+                lambda rng, da, A, O: lambda: P.cif.CIF('a').with_powder_calibration(da).save(io.StringIO())),
+            'save_cif[Loop+Chunk]': (
+                lambda rng: powder(rng),
+                lambda rng, da, A, O: lambda: P.cif.save_cif(io.StringIO(), P.cif.Block('b', [
+                    P.cif.Loop({'l.y': da.data, 'l.x': da.coords['tof']}), P.cif.Chunk({'c.first': da.data[0]})]))),
+            'fit_peaks': (
+                lambda rng: spectrum(rng),
+                lambda rng, da, A, O: lambda: P.peaks.fit_peaks(
+                    da, peak_estimates=_arr([4.0, 6.5], 'angstrom'), windows=_s(2.0, 'angstrom'),
+                    background=['linear', 'quadratic'], peak=['gaussian', 'lorentzian'])),
+            'remove_peaks': (
+                lambda rng: spectrum(rng),
+                lambda rng, da, A, O: (lambda res: lambda: P.peaks.remove_peaks(da, res))(O(clean_fit(P, rng)[1]))),
+            'Model.guess': (
+                lambda rng: spectrum(rng),
+                lambda rng, da, A, O: _each(*[lambda m=m: m.guess(da) for m in (
+                    P.peaks.model.GaussianModel(prefix='g_'), P.peaks.model.LorentzianModel(prefix='l_'),
+                    P.peaks.model.PseudoVoigtModel(prefix='v_'), P.peaks.model.PolynomialModel(degree=2, prefix='p_'))])),
+            'find_plateaus+collapse_plateaus+filter_in_phase': (
+                lambda rng: signal(rng, np.arange(50)),
+                lambda rng, da, A, O: lambda: P.filtering.filter_in_phase(P.filtering.collapse_plateaus(
+                    P.filtering.find_plateaus(da, atol=_s(0.01, 'Hz/s'), min_n_points=3)),
+                    reference=_s(1.0, 'Hz'), rtol=sc.scalar(0.05))),
+            'SqwBuilder.create': (lambda rng: sqw_pixels(rng, 7), sqw_create),
+        }
+
+    consumer_names = ['save_xye', 'CIF.with_reduced_powder_data+save', 'CIF.with_powder_calibration+save',
+                      'save_cif[Loop+Chunk]', 'fit_peaks', 'remove_peaks', 'Model.guess',
+                      'find_plateaus+collapse_plateaus+filter_in_phase', 'SqwBuilder.create']
+    for cons in consumer_names:
+        for vc in var_classes:
+            for dt in (('float64', 'float32') if cons.startswith(('save_', 'CIF.')) else ('float64',)):
+                @case(cons, f'variances:{vc}[{dt}]')
+                def _(P, A, O, rng, cons=cons, vc=vc, dt=dt):
+                    mk, call = consumers(P)[cons]
+                    da = A(with_var(mk(rng), vc, dt))
+                    return call(rng, da, A, O)
+        for mc in mask_classes:
+            @case(cons, f'masks:{mc}')
+            def _(P, A, O, rng, cons=cons, mc=mc):
+                mk, call = consumers(P)[cons]
+                da = A(with_masks(mk(rng), mc, rng))
+                return call(rng, da, A, O)
+
+    # ===================================================== (a) operands / coordinates carrying variances
+    for name, spec in kernels_1d.items():
+        for vc in ('some-negative', 'nan', 'all-zero'):
+            for dt in ('float64', 'float32'):
+                @case(name, f'operand-variances:{vc}[{dt}]')
+                def _(P, A, O, rng, name=name, spec=spec, vc=vc, dt=dt):
+                    # the first operand carries the variances (variances cannot be broadcast, all have one shape)
+                    kw = {arg: A(_arr(rng.uniform(0.5, 3.0, _N), unit, dtype=dt)) for arg, unit in spec[1:]}
+                    arg0, unit0 = spec[0]
+                    kw[arg0] = A(with_var(_arr(rng.uniform(1e3, 1e4, _N), unit0, dtype=dt), vc, dt))
+                    allv = {k: A(with_var(v, vc, dt)) for k, v in kw.items()}
+                    f = getattr(P.KT, name)
+                    return _each(lambda: f(**kw), lambda: f(**allv))
+
+    for vc in ('some-negative', 'nan', 'all-zero'):
+        @case('total_beam_length', f'operand-variances:{vc}')
+        def _(P, A, O, rng, vc=vc):
+            l1 = A(sc.scalar(25.0, variance=var_classes[vc][1 % len(var_classes[vc])], unit='m'))
+            l2 = A(with_var(_arr(rng.uniform(1, 5, _N), 'm'), vc))
+            l1n, l1a = A(_s(25.0, 'm')), A(with_var(_arr(rng.uniform(20, 30, _N), 'm'), vc))
+            return _each(lambda: P.KB.total_beam_length(L1=l1, L2=l2), lambda: P.KB.total_beam_length(L1=l1n, L2=l2),
+                         lambda: P.KB.total_beam_length(L1=l1a, L2=l2), lambda: P.KB.total_beam_length(L1=l1, L2=l1n))
+
+        for fname in ('scattering_angles_with_gravity', 'scattering_angle_in_yz_plane'):
+            @case(fname, f'operand-variances:{vc}')
+            def _(P, A, O, rng, vc=vc, fname=fname):
+                kw = gravity_args(A, rng, g_std)
+                kw['wavelength'] = A(with_var(_arr(rng.uniform(1, 10, len(far)) * 1e-10, 'm'), vc))
+                return lambda: getattr(P.KB, fname)(**kw)
+
+        @case('propagate_times', f'operand-variances:{vc}')
+        def _(P, A, O, rng, vc=vc):
+            t = A(with_var(_arr(rng.uniform(0, 3e-3, 4), 's', dim='vertex'), vc))
+            w = A(with_var(_arr(rng.uniform(1, 10, 4), 'angstrom', dim='vertex'), vc))
+            d = A(sc.scalar(10.0, variance=0.1, unit='m'))
+            return _each(lambda: P.CC.propagate_times(t, w, d), lambda: P.CC.propagate_times(sc.values(t), w, sc.values(d)))
+
+        @case('DiskChopper.methods', f'operand-variances:{vc}')
+        def _(P, A, O, rng, vc=vc):
+            dc = O(disk(P, A, [10.0, 100.0], [60.0, 150.0]))       # a chopper without variances, arguments with
+            pf = A(sc.scalar(14.0, variance=var_classes[vc][1 % len(var_classes[vc])], unit='Hz'))
+            ang = A(with_var(_arr([0.3, 7.0, 1.0], 'rad', dim='slit'), vc))
+            return _each(lambda: dc.time_offset_open(pulse_frequency=pf), lambda: dc.time_offset_close(pulse_frequency=pf),
+                         lambda: dc.open_duration(pulse_frequency=pf), lambda: dc.time_offset_angle_at_beam(angle=ang, n_repetitions=2),
+                         lambda: P.CC.Chopper.from_disk_chopper(dc, pulse_frequency=pf, npulses=2))
+
+        @case('DiskChopper', f'operand-variances:{vc}')
+        def _(P, A, O, rng, vc=vc):
+            def f():
+                dc = P.DiskChopper(
+                    axle_position=A(_vec([0.0, 0.0, 8.0])), frequency=A(sc.scalar(14.0, variance=0.5, unit='Hz')),
+                    beam_position=A(sc.scalar(0.1, variance=1e-4, unit='rad')), phase=A(sc.scalar(0.5, variance=-1.0, unit='rad')),
+                    slit_begin=A(with_var(_arr([0.0, 2.0], 'rad', dim='slit'), vc)),
+                    slit_end=A(with_var(_arr([1.0, 3.0], 'rad', dim='slit'), vc)))
+                pf = A(sc.scalar(14.0, variance=0.5, unit='Hz'))
+                _each(lambda: dc.time_offset_open(pulse_frequency=pf), lambda: dc.time_offset_close(pulse_frequency=pf),
+                      lambda: dc.open_duration(pulse_frequency=pf),
+                      lambda: dc.time_offset_angle_at_beam(angle=A(with_var(_arr([0.3, 7.0], 'rad', dim='slit'), vc))),
+                      lambda: P.CC.Chopper.from_disk_chopper(dc, pulse_frequency=pf, npulses=2))()
+            return f
+
+        @case('Frame.chop', f'operand-variances:{vc}')
+        def _(P, A, O, rng, vc=vc):
+            fr = O(P.CC.Frame(distance=A(sc.scalar(0.0, variance=0.0, unit='m')), subframes=[P.CC.Subframe(
+                time=A(with_var(_arr([0.0, 0.0, 3e-3, 3e-3], 's', dim='vertex'), vc)),
+                wavelength=A(with_var(_arr([1.0, 8.0, 8.0, 1.0], 'angstrom', dim='vertex'), vc)))]))
+            ch = O(P.CC.Chopper(distance=A(sc.scalar(8.0, variance=0.01, unit='m')),
+                                time_open=A(with_var(_arr([5e-3, 15e-3], 's', dim='cutout'), vc)),
+                                time_close=A(with_var(_arr([9e-3, 20e-3], 's', dim='cutout'), vc))))
+            fr0 = O(P.CC.Frame(distance=A(_s(0.0, 'm')), subframes=[P.CC.Subframe(time=fr.subframes[0].time, wavelength=fr.subframes[0].wavelength)]))
+            ch0 = O(P.CC.Chopper(distance=A(_s(8.0, 'm')), time_open=ch.time_open, time_close=ch.time_close))
+            plain = O(frame(P, A))
+            return _each(lambda: fr.chop(ch), lambda: fr.propagate_to(A(sc.scalar(20.0, variance=1.0, unit='m'))),
+                         lambda: (fr.bounds(), fr.subbounds()), lambda: fr0.chop(ch0), lambda: plain.chop(ch0),
+                         lambda: fr0.propagate_to(A(_s(20.0, 'm'))), lambda: (fr0.bounds(), fr0.subbounds()))
+
+        @case('compute_transmission_map', f'operand-variances:{vc}')
+        def _(P, A, O, rng, vc=vc):
+            return transmission(P, A, O, rng, beam=(0.0, 0.0, 25.0),
+                                wl=with_var(_arr([0.5, 1.8, 5.0], 'angstrom', dim='wavelength'), vc))
+
+        for tgt in ('wavelength', 'dspacing', 'Q', 'energy'):
+            @case(f'convert[{tgt}]', f'operand-variances:{vc}')
+            def _(P, A, O, rng, vc=vc, tgt=tgt):
+                da = beamline_da(rng, _arr([9e3, 2e3, 4e3, 7e3], 'us', dim='tof'))
+                da.data = with_var(da.data, vc)                                            # data variances
+                dac = da.copy()
+                dac.coords['tof'] = with_var(dac.coords['tof'], vc)                        # coordinate variances
+                da, dac = A(da), A(dac)
+                return _each(lambda: P.scn.convert(da, 'tof', tgt, scatter=True),
+                             lambda: P.scn.convert(dac, 'tof', tgt, scatter=True))
+
+    # ===================================================== (b) masks: bin-level, event-level, per-pixel
+    def binned_beamline_da(rng, outer='x', event='event', nev=40, weights_var='some-negative', masks=()):
+        nn = len(far)
+        table = sc.DataArray(
+            with_var(_arr(rng.uniform(0.5, 2.0, nev), 'counts', dim=event), weights_var),
+            coords={'tof': _arr(rng.uniform(1e3, 1e4, nev), 'us', dim=event),
+                    'pulse_time': sc.datetimes(dims=[event], values=np.arange(nev) * 71_000_000, unit='ns')})
+        if 'event' in masks:
+            table.masks['em'] = sc.array(dims=[event], values=rng.random(nev) < 0.3)
+            table.masks['em-none'] = sc.array(dims=[event], values=np.zeros(nev, bool))
+        cuts = np.sort(rng.integers(0, nev + 1, size=nn - 1))
+        begin = sc.array(dims=[outer], values=np.concatenate([[0], cuts]), unit=None, dtype='int64')
+        end = sc.array(dims=[outer], values=np.concatenate([cuts, [nev]]), unit=None, dtype='int64')
+        da = sc.DataArray(sc.bins(begin=begin, end=end, dim=event, data=table), coords={
+            'position': _vecs(_scaled_rows(rng, far) + [0.1, 0.2, 0.3], dim=outer),
+            'source_position': _vec([0.1, 0.2, -25.0]), 'sample_position': _vec([0.1, 0.2, 0.3])})
+        if 'pixel' in masks:
+            da.masks['pm'] = sc.array(dims=[outer], values=np.arange(nn) % 2 == 0)
+            da.masks['pm-all'] = sc.array(dims=[outer], values=np.ones(nn, bool))
+        return da
+
+    for facet, masks in {'binned-no-masks': (), 'binned-per-pixel-masks': ('pixel',), 'binned-event-masks': ('event',),
+                         'binned-pixel-and-event-masks': ('pixel', 'event')}.items():
+        for tgt in ('wavelength', 'dspacing', 'Q', 'energy'):
+            @case(f'convert[{tgt}]', f'masks:{facet}')
+            def _(P, A, O, rng, masks=masks, tgt=tgt):
+                da = A(binned_beamline_da(rng, masks=masks))
+                return lambda: P.scn.convert(da, 'tof', tgt, scatter=True)
+
+        @case('scn.beamline-components', f'masks:{facet}')
+        def _(P, A, O, rng, masks=masks):
+            da = A(binned_beamline_da(rng, masks=masks))
+            return _each(*[lambda f=f: getattr(P.scn, f)(da) for f in ('L1', 'L2', 'two_theta', 'scattered_beam')],
+                         lambda: P.scn.Ltotal(da, scatter=True))
+
+    for mc in mask_classes:
+        for tgt in ('wavelength', 'dspacing', 'Q', 'energy'):
+            @case(f'convert[{tgt}]', f'masks:{mc}[tof]+[pixel]')
+            def _(P, A, O, rng, mc=mc, tgt=tgt):
+                da = with_masks(beamline_da(rng, _arr([1e3, 2e3, 4e3, 7e3], 'us', dim='tof')), mc, rng)
+                da = A(with_masks(da, mc, rng, dim='x'))
+                return lambda: P.scn.convert(da, 'tof', tgt, scatter=True)
+
+    # ===================================================== (c) caller dims named like dims the code uses inside
+    internal_dims = ['quad', 'row', 'range', 'vertex', 'cutout', 'slit', 'edge', 'bound', 'subframe', 'event', 'x',
+                     'distance', 'time', 'plateau', 'schema', 'author', 'role', 'r', 'rv_buffer']
+
+    for d in ('quad', 'row', 'wavelength'):
+        @case('compute_transmission_map', f'dims:detector_position-dim-{d}')
+        def _(P, A, O, rng, d=d):
+            return transmission(P, A, O, rng, beam=(0.0, 0.1, 3.0), det=_vecs(rng.normal(size=(4, 3)) * 100, 'cm', dim=d))
+
+    @case('compute_transmission_map', 'dims:wavelength-dim-quad')
+    def _(P, A, O, rng):
+        return transmission(P, A, O, rng, beam=(0.0, 0.1, 3.0), wl=_arr([0.5, 1.8, 5.0], 'angstrom', dim='quad'))
+
+    for d in ('quad', 'row'):
+        @case('Cylinder.beam_intersection', f'dims:points-dim-{d}')
+        def _(P, A, O, rng, d=d):
+            cyl = O(cylinder(P, A, 'axis-tilted'))
+            start, direction = A(_vecs(rng.normal(size=(4, 3)) * 0.3, 'cm', dim=d)), A(_vecs(rng.normal(size=(4, 3)), 'one', dim=d))
+            return lambda: cyl.beam_intersection(start, direction)
+
+    for d in ('range', 'x', 'event', 'peak'):
+        @case('fit_peaks', f'dims:data-dim-{d}')
+        def _(P, A, O, rng, d=d):
+            da = spectrum(rng).rename_dims({'x': d})
+            da = A(sc.DataArray(da.data, coords={d: da.coords['x']}))
+            e, w0 = A(_arr([4.0, 6.5], 'angstrom', dim=d)), A(_s(2.0, 'angstrom'))
+            w2 = A(sc.array(dims=[d, 'range'] if d != 'range' else ['peak', 'range'], values=[[3.0, 5.0], [5.5, 7.5]], unit='angstrom'))
+
+            def fit(w):
+                res = P.peaks.fit_peaks(da, peak_estimates=e, windows=w, background='linear', peak='gaussian')
+                P.peaks.remove_peaks(sc.DataArray(sc.values(da.data), coords=dict(da.coords)), res)
+            return _each(lambda: fit(w0), lambda: fit(w2))
+
+    for d in ('vertex', 'cutout', 'bound', 'subframe', 'distance'):
+        @case('Frame.chop', f'dims:subframe-dim-{d}-cutout-dim-{d}')
+        def _(P, A, O, rng, d=d):
+            fr = O(P.CC.Frame(distance=A(_s(0.0, 'm')), subframes=[P.CC.Subframe(
+                time=A(_arr([0.0, 0.0, 3e-3, 3e-3], 's', dim=d)), wavelength=A(_arr([1.0, 8.0, 8.0, 1.0], 'angstrom', dim=d)))]))
+            ch = O(P.CC.Chopper(distance=A(_s(8.0, 'm')), time_open=A(_arr([5e-3, 15e-3], 's', dim=d)),
+                                time_close=A(_arr([9e-3, 20e-3], 's', dim=d))))
+            ch2 = O(chopper(P, A, *chopper_sets['windows-unsorted']))
+            return _each(lambda: fr.chop(ch), lambda: fr.chop(ch2).subbounds(), lambda: fr.chop(ch2).bounds(),
+                         lambda: fr.propagate_to(A(_s(20.0, 'm'))))
+
+        @case('propagate_times', f'dims:all-dims-{d}')
+        def _(P, A, O, rng, d=d):
+            t, w = A(_arr(rng.uniform(0, 3e-3, 4), 's', dim=d)), A(_arr(rng.uniform(1, 10, 4), 'angstrom', dim=d))
+            dist = A(_arr([5.0, 10.0, 20.0, 30.0], 'm', dim=d))
+            return _each(lambda: P.CC.propagate_times(t, w, dist), lambda: P.CC.propagate_times(t, w, dist[d, 0]))
+
+    for d in ('edge', 'cutout', 'vertex', 'x'):
+        @case('DiskChopper', f'dims:slit-dim-{d}')
+        def _(P, A, O, rng, d=d):
+            def f():
+                dc = P.DiskChopper(
+                    axle_position=A(_vec([0.0, 0.0, 8.0])), frequency=A(_s(-14.0, 'Hz')), beam_position=A(_s(0.1, 'rad')),
+                    phase=A(_s(0.5, 'rad')), slit_begin=A(_arr([0.0, 2.0], 'rad', dim=d)), slit_end=A(_arr([1.0, 3.0], 'rad', dim=d)),
+                    slit_height=A(_arr([3.0, 4.0], 'cm', dim=d)), radius=A(_s(35.0, 'cm')))
+                pf = A(_s(14.0, 'Hz'))
+                _each(lambda: dc.time_offset_open(pulse_frequency=pf), lambda: dc.open_duration(pulse_frequency=pf),
+                      lambda: dc.time_offset_angle_at_beam(angle=A(_arr([0.3, 7.0, 1.0], 'rad', dim='slit')), n_repetitions=2),
+                      lambda: dc.time_offset_angle_at_beam(angle=A(_arr([0.3, 7.0, 1.0], 'rad', dim=d))),
+                      lambda: P.CC.Chopper.from_disk_chopper(dc, pulse_frequency=pf, npulses=2), lambda: dc.make_svg())()
+            return f
+
+    for d in ('plateau', 'x', 'event'):
+        @case('find_plateaus', f'dims:data-dim-{d}')
+        def _(P, A, O, rng, d=d):
+            sig = signal(rng, np.arange(50))
+            sig = A(sc.DataArray(sig.data.rename_dims({'time': d}), coords={d: sig.coords['time'].rename_dims({'time': d})}))
+            atol = A(_s(0.01, 'Hz/s'))
+
+            def f():
+                pl = P.filtering.find_plateaus(sig, atol=atol, min_n_points=3, plateau_dim='plateau')
+                P.filtering.filter_in_phase(P.filtering.collapse_plateaus(pl, coord=d), reference=_s(1.0, 'Hz'), rtol=sc.scalar(0.05))
+            return f
+
+    for d in ('event', 'x'):
+        @case('convert[wavelength]', f'dims:binned-outer-dim-and-event-dim-{d}')
+        def _(P, A, O, rng, d=d):
+            da = A(binned_beamline_da(rng, outer=d if d == 'event' else 'x', event='event' if d == 'event' else 'x2'))
+            return lambda: P.scn.convert(da, 'tof', 'wavelength', scatter=True)
+
+    for name, spec in kernels_1d.items():
+        @case(name, 'dims:operands-with-different-internal-dim-names')
+        def _(P, A, O, rng, name=name, spec=spec):
+            # every operand along its own dim, the dims named like dims used inside the package
+            kw = {arg: A(_arr(rng.uniform(0.5, 3.0, 3), unit, dim=internal_dims[i])) for i, (arg, unit) in enumerate(spec)}
+            return lambda: getattr(P.KT, name)(**kw)
+
+    for d in ('schema', 'author', 'role', 'r'):
+        @case('save_cif', f'dims:loop-dim-{d}', layouts=one_layout())
+        def _(P, A, O, rng, d=d):
+            cols = O({'l.x': A(_arr([1.0, 2.0, 3.0], 'm', dim=d)), 'l.s': A(sc.array(dims=[d], values=['a', 'b c', "d'e"]))})
+            ppl = O(list(people(P).values())[:3])
+            return lambda: P.cif.save_cif(io.StringIO(), P.cif.Block('b', [P.cif.Loop(cols)]))
+
+    @case('SqwBuilder.create', 'dims:pixel-dim-energy_transfer', layouts=one_layout())
+    def _(P, A, O, rng):
+        exps, pix = O(sqw_experiments(P, A)), A(sqw_pixels(rng, dim='energy_transfer'))
+        return lambda: P.sqw.Sqw.build(io.BytesIO()).add_pixel_data(pix, experiments=exps).create()
+
+    # ===================================================== (d) calling conventions; kernels as graph nodes
+    def conventions(f, kw):
+        """f called with the same arguments all-keyword, as positional as the signature allows, and mixed."""
+        import inspect
+
+        names = [n for n, p in inspect.signature(f).parameters.items()
+                 if p.kind in (p.POSITIONAL_ONLY, p.POSITIONAL_OR_KEYWORD) and n in kw]
+        pos = [kw[n] for n in names]
+        rest = {k: v for k, v in kw.items() if k not in names}
+        thunks = [lambda: f(**kw), lambda: f(*pos, **rest)]
+        if len(names) > 1:
+            thunks.append(lambda: f(pos[0], **{k: v for k, v in kw.items() if k != names[0]}))
+        # keyword arguments in reverse order
+        thunks.append(lambda: f(**dict(reversed(list(kw.items())))))
+        return thunks
+
+    multi_out = {'beam_aligned_unit_vectors': ('beam_aligned_unit_x', 'beam_aligned_unit_y', 'beam_aligned_unit_z'),
+                 'scattering_angles_with_gravity': ('two_theta', 'phi'), 'Q_elements_from_wavelength': ('Qx', 'Qy', 'Qz'),
+                 'hkl_elements_from_hkl_vec': ('h', 'k', 'l')}
+
+    def graph_node(P, A, f, kw):
+        """f as a node of a transform_coords graph: every parameter is looked up as a coordinate."""
+        out = multi_out.get(f.__name__, 'rv_out')
+        sizes = {d: n for v in kw.values() for d, n in v.sizes.items()}
+        da = A(sc.DataArray(sc.ones(dims=list(sizes), shape=list(sizes.values())), coords=dict(kw)))
+        return lambda: da.transform_coords(list(out) if isinstance(out, tuple) else [out], graph={out: f}, keep_inputs=True)
+
+    def kernel_args(A, rng, spec, dt='float64'):
+        return {arg: A(_arr(rng.uniform(0.5, 3.0, _N) * (1e3 if arg == 'tof' else 1.0), unit, dtype=dt)) for arg, unit in spec}
+
+    for name, spec in kernels_1d.items():
+        @case(name, 'call:positional-keyword-mixed+graph-node')
+        def _(P, A, O, rng, name=name, spec=spec):
+            f, kw = getattr(P.KT, name), kernel_args(A, rng, spec)
+            return _each(*conventions(f, kw), graph_node(P, A, f, kw))
+
+    beam_kernels = {
+        'L1': lambda A, rng: dict(incident_beam=A(_vec([0.3, -0.2, 25.0]))),
+        'L2': lambda A, rng: dict(scattered_beam=A(_vecs(_scaled_rows(rng, far)))),
+        'straight_incident_beam': lambda A, rng: dict(source_position=A(_vec([0.0, 0.0, -25.0])), sample_position=A(_vec([0.1, 0.2, 0.3]))),
+        'straight_scattered_beam': lambda A, rng: dict(position=A(_vecs(_scaled_rows(rng, far))), sample_position=A(_vec([0.1, 0.2, 0.3]))),
+        'total_beam_length': lambda A, rng: dict(L1=A(_s(25.0, 'm')), L2=A(_arr(rng.uniform(1, 5, _N), 'm'))),
+        'total_straight_beam_length_no_scatter': lambda A, rng: dict(source_position=A(_vec([0.0, 0.0, -25.0])), position=A(_vecs(_scaled_rows(rng, far)))),
+        'two_theta': lambda A, rng: dict(incident_beam=A(_vec([0.0, 0.0, 25.0])), scattered_beam=A(_vecs(_scaled_rows(rng, far)))),
+        'beam_aligned_unit_vectors': lambda A, rng: dict(incident_beam=A(_vec([0.0, 0.0, 25.0])), gravity=A(_vec(g_std, 'm/s^2'))),
+        'scattering_angles_with_gravity': lambda A, rng: gravity_args(A, rng, g_std),
+        'scattering_angle_in_yz_plane': lambda A, rng: gravity_args(A, rng, g_std),
+    }
+    for name, mk in beam_kernels.items():
+        @case(name, 'call:positional-keyword-mixed+graph-node')
+        def _(P, A, O, rng, name=name, mk=mk):
+            f, kw = getattr(P.KB, name), mk(A, rng)
+            return _each(*conventions(f, kw), graph_node(P, A, f, kw))
+
+    for name in ('Q_elements_from_wavelength', 'Q_vec_from_Q_elements', 'hkl_elements_from_hkl_vec', 'time_at_sample_from_tof'):
+        @case(name, 'call:positional-keyword-mixed+graph-node')
+        def _(P, A, O, rng, name=name):
+            kw = {
+                'Q_elements_from_wavelength': lambda: dict(wavelength=A(_arr(rng.uniform(1, 10, _N), 'angstrom')),
+                                                           incident_beam=A(_vec([0.0, 0.0, 25.0])), scattered_beam=A(_vecs(_scaled_rows(rng, far)))),
+                'Q_vec_from_Q_elements': lambda: {k: A(_arr(rng.normal(size=_N), '1/angstrom')) for k in ('Qx', 'Qy', 'Qz')},
+                'hkl_elements_from_hkl_vec': lambda: dict(hkl_vec=A(_vecs(_scaled_rows(rng, far), 'one'))),
+                'time_at_sample_from_tof': lambda: dict(pulse_time=A(_arr(np.arange(_N) * 0.071 + 1e6, 's')),
+                                                        tof=A(_arr(rng.uniform(1e-3, 1e-2, _N), 's')), L2=A(_arr(rng.uniform(1, 5, _N), 'm')),
+                                                        wavelength=A(_arr(rng.uniform(1, 10, _N), 'angstrom'))),
+            }[name]()
+            f = getattr(P.KT, name)
+            return _each(*conventions(f, kw), graph_node(P, A, f, kw))
+
+    @case('entry-points', 'call:positional-keyword-mixed')
+    def _(P, A, O, rng):
+        da = A(beamline_da(rng, _arr([1e3, 2e3, 4e3], 'us', dim='tof')))
+        t, w, d = A(_arr([0.0, 1e-3], 's', dim='vertex')), A(_arr([1.0, 5.0], 'angstrom', dim='vertex')), A(_s(10.0, 'm'))
+        fr, ch = O(frame(P, A)), O(chopper(P, A, *chopper_sets['windows-unsorted']))
+        fs = O(P.CC.FrameSequence.from_source_pulse(**source(P, A)))
+        chs = O([chopper(P, A, 8.0, 'm', [5e-3], [9e-3])])
+        cyl, mat = O(cylinder(P, A)), O(material(P, A))
+        start, direction = A(_vecs(rng.normal(size=(4, 3)) * 0.3, 'cm')), A(_vecs(rng.normal(size=(4, 3)), 'one'))
+        wl, det, beam = A(_arr([0.5, 1.8], 'angstrom', dim='wavelength')), A(_vecs(rng.normal(size=(3, 3)) * 100, 'cm')), A(_vec([0, 0, 1.0], 'one'))
+        pd = A(powder(rng))
+        sp, res = clean_fit(P, rng)
+        nv, res = A(sc.DataArray(sc.values(sp.data), coords={'x': sp.coords['x']})), O(res)
+        sig, atol = A(signal(rng, np.arange(50))), A(_s(0.01, 'Hz/s'))
+        dc, pf = O(disk(P, A, [10.0, 100.0], [60.0, 150.0])), A(_s(14.0, 'Hz'))
+        gm = O(P.peaks.model.GaussianModel(prefix='g_'))
+        x = A(_arr(np.linspace(0, 10, 7), 'angstrom'))
+        gp = O({'g_amplitude': sc.scalar(2.0), 'g_loc': _s(4.0, 'angstrom'), 'g_scale': _s(0.3, 'angstrom')})
+        return _each(
+            *conventions(P.scn.convert, dict(data=da, origin='tof', target='wavelength', scatter=True)),
+            *conventions(P.scn.Ltotal, dict(da=da, scatter=True)), *conventions(P.scn.two_theta, dict(da=da)),
+            *conventions(P.CC.propagate_times, dict(time=t, wavelength=w, distance=d)),
+            *conventions(fr.chop, dict(chopper=ch)), *conventions(fr.propagate_to, dict(distance=d)),
+            *conventions(fs.chop, dict(choppers=chs)), *conventions(fs.propagate_to, dict(distance=d)),
+            *conventions(cyl.beam_intersection, dict(start_point=start, direction=direction)),
+            *conventions(mat.attenuation_coefficient, dict(wavelength=wl)),
+            *conventions(P.compute_transmission_map, dict(sample_shape=cyl, sample_material=mat, beam_direction=beam,
+                                                          wavelength=wl, detector_position=det, quadrature_kind='cheap')),
+            *conventions(lambda fname, da, **k: P.save_xye(io.StringIO(), da, **k), dict(fname=None, da=pd)),
+            *conventions(P.save_xye, dict(fname=io.StringIO(), da=pd, coord='tof', header='h')),
+            *conventions(P.peaks.remove_peaks, dict(data=nv, fit_results=res)),
+            *conventions(P.filtering.find_plateaus, dict(data=sig, atol=atol, min_n_points=3)),
+            *conventions(dc.time_offset_open, dict(pulse_frequency=pf)),
+            *conventions(dc.time_offset_angle_at_beam, dict(angle=A(_s(0.3, 'rad')), n_repetitions=2)),
+            *conventions(P.CC.Chopper.from_disk_chopper, dict(disk_chopper=dc, pulse_frequency=pf, npulses=2)),
+            *conventions(gm.guess, dict(data=sp, coord='x')), lambda: gm(x, **gp), lambda: gm(x=x, **gp),
+            *conventions(gm.fwhm, dict(params=gp)),
+        )
+
+    # ===================================================== (e) numpy scalars / str subclasses where Python ones are documented
+    import enum
+
+    class Names(str, enum.Enum):
+        gaussian = 'gaussian'
+        linear = 'linear'
+        cheap = 'cheap'
+        tof = 'tof'
+        big = 'big'
+        V = 'V'
+
+    class Small(enum.IntEnum):
+        two = 2
+        three = 3
+
+    for tag, (S_, I_, B_) in {'numpy': (np.str_, np.int64, np.bool_), 'enum': (lambda s: Names[s] if s in Names.__members__ else np.str_(s), lambda i: Small(i) if i in (2, 3) else np.int32(i), np.bool_)}.items():
+        @case('entry-points', f'scalars:{tag}-str-int-bool-arguments')
+        def _(P, A, O, rng, S_=S_, I_=I_, B_=B_):
+            da = A(beamline_da(rng, _arr([1e3, 2e3, 4e3], 'us', dim='tof')))
+            sp = A(spectrum(rng))
+            e, w = A(_arr([4.0, 6.5], 'angstrom')), A(_s(2.0, 'angstrom'))
+            sig, atol = A(signal(rng, np.arange(50))), A(_s(0.01, 'Hz/s'))
+            dc, pf = O(disk(P, A, [10.0, 100.0], [60.0, 150.0])), A(_s(14.0, 'Hz'))
+            pd = A(powder(rng))
+            exps, pix = O(sqw_experiments(P, A, run_id=I_)), A(sqw_pixels(rng, 7))
+            exps_py = O(sqw_experiments(P, A))
+            cyl = O(cylinder(P, A))
+            fpar = O(P.peaks.FitParameters(neighbor_separation_factor=np.float64(-0.5), guess_background_fraction=np.float32(0.5)))
+            x = A(_arr(np.linspace(0, 10, 7), 'angstrom'))
+            return _each(
+                lambda: P.scn.convert(da, S_('tof'), np.str_('wavelength'), scatter=B_(True)),
+                lambda: P.scn.convert(da, S_('tof'), np.str_('wavelength'), scatter=B_(False)),
+                lambda: P.scn.Ltotal(da, scatter=B_(True)),
+                lambda: P.peaks.fit_peaks(sp, peak_estimates=e, windows=w, background=S_('linear'), peak=S_('gaussian'), fit_parameters=fpar),
+                lambda: P.peaks.fit_peaks(sp, peak_estimates=e, windows=w, background=[S_('linear')], peak=(S_('gaussian'), np.str_('lorentzian'))),
+                lambda: P.peaks.model.PolynomialModel(degree=I_(2), prefix=np.str_('p_')).guess(sp),
+                lambda: P.peaks.model.GaussianModel(prefix=np.str_('g_')).with_prefix(np.str_('h_')).guess(sp, coord=np.str_('x')),
+                lambda: P.filtering.find_plateaus(sig, atol=atol, min_n_points=I_(3), plateau_dim=np.str_('plateau')),
+                lambda: dc.time_offset_angle_at_beam(angle=A(_s(0.3, 'rad')), n_repetitions=I_(3)),
+                lambda: P.CC.Chopper.from_disk_chopper(dc, pulse_frequency=pf, npulses=I_(2)),
+                lambda: dc.make_svg(image_size=I_(100)),
+                lambda: P.save_xye(io.StringIO(), pd, coord=S_('tof'), header=np.str_('my header')),
+                lambda: P.cif.CIF(np.str_('name'), comment=np.str_('c')).with_reducers(np.str_('prog 1')).with_reduced_powder_data(
+                    pd, comment=np.str_('data')).save(io.StringIO()),
+                lambda: P.cif.save_cif(io.StringIO(), P.cif.Block(np.str_('b'), [{np.str_('a.b'): I_(3), 'a.c': np.float32(1.5),
+                                                                                  'a.d': B_(True), 'a.e': np.str_('text')}])),
+                lambda: P.sqw.Sqw.build(io.BytesIO(), title=np.str_('t'), byteorder=S_('big')).add_pixel_data(
+                    pix, experiments=exps, n_dims=I_(4)).create(chunk_size=I_(3)),           # numpy run ids
+                lambda: P.sqw.Sqw.build(io.BytesIO(), title=np.str_('t'), byteorder=S_('big')).add_pixel_data(
+                    pix, experiments=exps_py, n_dims=4).create(chunk_size=I_(3)),
+                lambda: cyl.quadrature(S_('cheap')),
+                lambda: (P.Atom.for_isotope(S_('V')), P.ScatteringParams.for_isotope(S_('V'))),
+                lambda: P.GT.elastic(S_('tof')), lambda: P.GB.beamline(scatter=B_(True)),
+            )
+
+    # ===================================================== (f) one-shot iterables where a collection is documented
+    @case('entry-points', 'iterables:one-shot-iterators-and-generators')
+    def _(P, A, O, rng):
+        M = P.peaks.model
+        sp = A(spectrum(rng))
+        e, w = A(_arr([4.0, 6.5], 'angstrom')), A(_s(2.0, 'angstrom'))
+        fs = O(P.CC.FrameSequence.from_source_pulse(**source(P, A)))
+        chs = O([chopper(P, A, 15.0, 'm', [10e-3], [20e-3]), chopper(P, A, 8.0, 'm', [5e-3], [9e-3])])
+        models = O([M.PolynomialModel(degree=1, prefix='a_'), M.PolynomialModel(degree=2, prefix='b_')])
+        pks = O([M.GaussianModel(prefix='g_'), M.LorentzianModel(prefix='l_')])
+        chunk, loop = O(P.cif.Chunk({'a.b': 1})), O(P.cif.Loop({'l.x': A(sc.arange('i', 3.0, unit='m'))}))
+        ppl = O(list(people(P).values()))
+        exps, pix = O(sqw_experiments(P, A)), A(sqw_pixels(rng, 7))
+        sp0, res = clean_fit(P, rng)
+        res = O(res)
+        nv = A(sc.DataArray(sc.values(sp0.data), coords={'x': sp0.coords['x']}))
+        return _each(
+            lambda: fs.chop(iter(chs)), lambda: fs.chop(c for c in chs), lambda: fs.chop(tuple(chs)),
+            lambda: fs.chop(reversed(chs)), lambda: fs.chop({c.distance.value: c for c in chs}.values()),
+            lambda: P.peaks.fit_peaks(sp, peak_estimates=e, windows=w, background=iter(models), peak=(m for m in pks)),
+            lambda: P.peaks.fit_peaks(sp, peak_estimates=e, windows=w, background=iter(['linear', 'quadratic']),
+                                      peak=map(str, ['gaussian', 'lorentzian'])),
+            lambda: P.peaks.fit_peaks(sp, peak_estimates=e, windows=w, background=iter([]), peak='gaussian'),
+            lambda: P.peaks.remove_peaks(nv, iter(res)), lambda: P.peaks.remove_peaks(nv, tuple(res)),
+            lambda: P.cif.save_cif(io.StringIO(), P.cif.Block('b', iter([chunk, loop]))),
+            lambda: P.cif.save_cif(io.StringIO(), iter([P.cif.Block('b1', (c for c in [chunk])), P.cif.Block('b2', [loop])])),
+            lambda: P.cif.CIF('a').with_authors(*iter(ppl)).with_reducers(*(str(i) for i in range(2))).save(io.StringIO()),
+            lambda: P.sqw.Sqw.build(io.BytesIO()).add_pixel_data(pix, experiments=iter(exps)).create(),
+            lambda: P.sqw.Sqw.build(io.BytesIO()).add_pixel_data(pix, experiments=tuple(exps), rows=iter(('u1', 'signal', 'error')),
+                                                                 row_units=iter(('1/angstrom', 'count', 'count**2'))).create(),
+            lambda: M.PolynomialModel(degree=1, prefix='q_')(A(_arr([1.0, 2.0], 'angstrom')),
+                                                            **dict(iter({'q_a0': sc.scalar(1.0), 'q_a1': _s(1.0, '1/angstrom')}.items()))),
+        )
+
+    # ===================================================== (g) second use: results fed back, the same objects again
+    @case('Frame/FrameSequence', 'second-use:results-fed-back-and-same-choppers-again')
+    def _(P, A, O, rng):
+        fr, ch = O(frame(P, A)), O(chopper(P, A, *chopper_sets['windows-unsorted']))
+        fs, chs = O(P.CC.FrameSequence.from_source_pulse(**source(P, A))), O([chopper(P, A, 8.0, 'm', [5e-3, 15e-3], [9e-3, 20e-3])])
+        d = A(_s(8.0, 'm'))
+
+        def f():
+            once = O(fr.chop(ch))
+            twice = O(once.chop(ch))                      # a chopped frame through the same chopper again
+            O(twice.propagate_to(d)).propagate_to(d)      # to where it already is
+            seq = O(fs.chop(chs))
+            seq2 = O(seq.chop(chs))                       # the same list of choppers again
+            seq2.propagate_to(d)
+            seq2[d].chop(chs[0])
+            fs.chop(chs)
+        return f
+
+    @case('peaks', 'second-use:fit-remove-fit-with-the-same-objects')
+    def _(P, A, O, rng):
+        da, e, w = A(spectrum(rng)), A(_arr([4.0, 6.5], 'angstrom')), A(_s(2.0, 'angstrom'))
+        fpar, freq = O(P.peaks.FitParameters(neighbor_separation_factor=-0.5)), O(P.peaks.FitRequirements())
+        bad = O(P.peaks.FitParameters(neighbor_separation_factor=2.5))
+        model = O(P.peaks.model.GaussianModel(prefix='mine_'))
+
+        def fit(data, fp_):
+            return P.peaks.fit_peaks(data, peak_estimates=e, windows=w, background='linear', peak=model,
+                                     fit_parameters=fp_, fit_requirements=freq)
+
+        def f():
+            try:
+                fit(da, bad)                              # a call that may raise ...
+            except Exception:  # noqa: BLE001
+                pass
+            res = O(fit(da, fpar))                        # ... and the same call again with good parameters
+            nv = O(sc.DataArray(sc.values(da.data), coords={'x': da.coords['x']}))
+            removed = O(P.peaks.remove_peaks(nv, res))
+            O(fit(sc.DataArray(removed.data, coords=dict(removed.coords)) if removed.variances is not None else da, fpar))
+            P.peaks.remove_peaks(removed, res)            # the result fed back, the same fit results again
+            x = O(_arr(np.linspace(0, 10, 5), 'angstrom'))
+            for r in res:
+                r.eval_model(x), r.eval_peak(x), r.eval_background(x) if hasattr(r, 'eval_background') else None
+                r.report()
+        return f
+
+    @case('convert', 'second-use:converted-data-converted-again')
+    def _(P, A, O, rng):
+        da = A(beamline_da(rng, _arr([1e3, 2e3, 4e3, 9e3], 'us', dim='tof')))
+        db = A(binned_beamline_da(rng, masks=('pixel', 'event')))
+
+        def f():
+            for d in (da, db):
+                w = O(P.scn.convert(d, 'tof', 'wavelength', scatter=True))
+                for tgt in ('dspacing', 'Q', 'energy'):
+                    O(P.scn.convert(w, 'wavelength', tgt, scatter=True))
+                P.scn.convert(d, 'tof', 'wavelength', scatter=True)
+                lam = O(P.KT.wavelength_from_tof(tof=d.coords['tof'] if d.bins is None else d.bins.coords['tof'],
+                                                 Ltotal=P.scn.Ltotal(d, scatter=True)))
+                en = O(P.KT.energy_from_wavelength(wavelength=lam))
+                P.KT.wavelength_from_energy(energy=en)
+        return f
+
+    @case('io', 'second-use:same-data-into-several-builders-and-files')
+    def _(P, A, O, rng):
+        pd = A(with_var(powder(rng), 'some-negative'))
+        cal = A(with_var(calibration(), 'nan'))
+        exps, pix = O(sqw_experiments(P, A)), A(sqw_pixels(rng, 7, var=var_classes['some-negative']))
+        sample = O(P.sqw.SqwIXSample(name='s', lattice_spacing=A(_vec([4.0, 2.0, 3.0], 'angstrom')),
+                                     lattice_angle=A(_vec([90.0, 90.0, 120.0], 'deg'))))
+
+        def f():
+            base = O(P.cif.CIF('a').with_reduced_powder_data(pd))
+            c2 = O(base.with_reduced_powder_data(pd, comment='again').with_powder_calibration(cal))
+            for c in (base, c2, base):
+                c.save(io.StringIO())
+            for _ in range(2):
+                P.save_xye(io.StringIO(), pd)
+            for order in ('little', 'big', 'little'):
+                b = P.sqw.Sqw.build(io.BytesIO(), byteorder=order).add_pixel_data(pix, experiments=exps).add_default_sample(sample)
+                b.create()
+                b.create()                                # the same builder written twice
+        return f
+
+    # ===================================================== (i) subclasses / duck-typed stand-ins
+    @case('fit_peaks', 'stand-ins:user-model-subclass-overriding-hooks')
+    def _(P, A, O, rng):
+        M = P.peaks.model
+
+        class Box(M.Model):
+            """A user model as the Model docs describe: overrides _call / _guess / _param_bounds."""
+
+            def __init__(self, *, prefix=''):
+                super().__init__(param_names=('height', 'loc', 'width'), prefix=prefix)
+
+            def _call(self, x, params):
+                return params['height'] * sc.exp(-(((x - params['loc']) / params['width']) ** 4))
+
+            def _guess(self, x, y):
+                return {'height': y.max(), 'loc': x[np.argmax(y.values)], 'width': (x.max() - x.min()) / 4.0}
+
+            def _param_bounds(self):
+                return {'width': (0.0, np.inf)}
+
+            def fwhm(self, params):
+                return params[self.prefix + 'width'] * 2.0
+
+        class LoudGaussian(M.GaussianModel):
+            def _guess(self, x, y):
+                g = super()._guess(x, y)
+                return {k: v * 1.0 for k, v in g.items()}
+
+            def with_prefix(self, prefix):
+                return LoudGaussian(prefix=prefix)
+
+        da, e, w = A(spectrum(rng)), A(_arr([4.0, 6.5], 'angstrom')), A(_s(2.0, 'angstrom'))
+        box, loud = O(Box(prefix='mine_')), O(LoudGaussian(prefix=''))
+        return _each(lambda: P.peaks.fit_peaks(da, peak_estimates=e, windows=w, background='linear', peak=loud),
+                     lambda: P.peaks.fit_peaks(da, peak_estimates=e[0:1], windows=w, background=['linear'], peak=[box, loud]),
+                     lambda: (box + loud).guess(da), lambda: box.with_prefix('x_').param_bounds)
+
+    @case('chopper', 'stand-ins:subclasses-and-duck-typed-choppers')
+    def _(P, A, O, rng):
+        import types
+
+        class MyDisk(P.DiskChopper):
+            def time_offset_open(self, *, pulse_frequency):
+                return super().time_offset_open(pulse_frequency=pulse_frequency) * 1.0
+
+            def time_offset_close(self, *, pulse_frequency):
+                return super().time_offset_close(pulse_frequency=pulse_frequency) * 1.0
+
+        dc = O(MyDisk(axle_position=A(_vec([0.0, 0.0, 8.0])), frequency=A(_s(14.0, 'Hz')), beam_position=A(_s(0.0, 'rad')),
+                      phase=A(_s(0.5, 'rad')), slit_begin=A(_arr([0.0, 2.0], 'rad', dim='slit')),
+                      slit_end=A(_arr([1.0, 3.0], 'rad', dim='slit'))))
+        pf = A(_s(14.0, 'Hz'))
+        duck = O(types.SimpleNamespace(distance=A(_s(8.0, 'm')), time_open=A(_arr([5e-3, 15e-3], 's', dim='cutout')),
+                                       time_close=A(_arr([9e-3, 20e-3], 's', dim='cutout'))))
+
+        class MyChopper(P.CC.Chopper):
+            def __getitem__(self, key):
+                return super().__getitem__(key)
+
+        mine = O(MyChopper(distance=A(_s(8.0, 'm')), time_open=A(_arr([5e-3, 15e-3], 's', dim='cutout')),
+                           time_close=A(_arr([9e-3, 20e-3], 's', dim='cutout'))))
+        fr, fs = O(frame(P, A)), O(P.CC.FrameSequence.from_source_pulse(**source(P, A)))
+        return _each(lambda: P.CC.Chopper.from_disk_chopper(dc, pulse_frequency=pf, npulses=2),
+                     lambda: dc.open_duration(pulse_frequency=pf), lambda: fr.chop(duck), lambda: fr.chop(mine),
+                     lambda: fs.chop([mine, duck]), lambda: fs.chop([mine])[A(_s(12.0, 'm'))])
+
+    @case('io', 'stand-ins:mapping-and-file-like-stand-ins')
+    def _(P, A, O, rng):
+        import collections
+        import types
+
+        class Store(collections.UserDict):
+            pass
+
+        class OD(dict):
+            def items(self):
+                return list(super().items())
+
+        class Sink(io.StringIO):
+            def write(self, s):
+                return super().write(s)
+
+        content = O(Store({'a.b': 1, 'a.c': A(sc.scalar(2.5, variance=0.04, unit='m'))}))
+        proxy = O(types.MappingProxyType({'p.q': 'text'}))
+        cols = O(OD({'l.x': A(sc.arange('i', 3.0, unit='m'))}))
+        pd = A(powder(rng))
+        dg = O(sc.DataGroup({'position': A(_vec([0.0, 0.0, 8.0])), 'rotation_speed': A(_s(-14.0, 'Hz')),
+                             'beam_position': A(_s(400.0, 'deg')), 'phase': A(_s(-30.0, 'deg')),
+                             'slit_edges': A(_arr([200.0, 250.0, 10.0, 60.0], 'deg', dim='slit')),
+                             'slit_height': A(_s(3.0, 'cm')), 'radius': A(_s(35.0, 'cm'))}))
+        od = O(collections.OrderedDict(dg.items()))
+        return _each(lambda: P.cif.save_cif(Sink(), P.cif.Block('b', [P.cif.Chunk(content), P.cif.Chunk(proxy), P.cif.Loop(cols), content, proxy])),
+                     lambda: P.cif.Block('b').add(content, comment='c'), lambda: P.cif.Block('b').add(proxy),
+                     lambda: P.save_xye(Sink(), pd), lambda: P.cif.CIF('a').with_reduced_powder_data(pd).save(Sink()),
+                     lambda: P.DiskChopper.from_nexus(dg), lambda: P.DiskChopper.from_nexus(od))
+
+    # ===================================================== (j) display / copy / pickle / == between two computational calls
+    def displayed(make, compute, label):
+        """build(): the object is computed with, then shown / copied / pickled / compared, then computed with again:
+        the object itself must not change (caller-owned) and the second result must equal the first."""
+        import copy
+        import pickle
+
+        def build(P, A, O, rng):
+            obj = O(make(P, A, O, rng))
+            other = make(P, A, O, np.random.Generator(np.random.PCG64(12345)))
+
+            def run():
+                first = fp(compute(P, obj))
+                ops = [repr, str, lambda o: format(o, ''), lambda o: getattr(o, '_repr_html_', lambda: None)(),
+                       lambda o: getattr(o, '_repr_svg_', lambda: None)(), copy.copy, copy.deepcopy,
+                       lambda o: pickle.loads(pickle.dumps(o)), lambda o: o == o, lambda o: o == other, lambda o: o != other,
+                       lambda o: o == copy.deepcopy(o), lambda o: hash(o), lambda o: o == 'not the same type', dir,
+                       lambda o: [getattr(o, a, None) for a in dir(o) if not a.startswith('_') and isinstance(getattr(type(o), a, None), property)]]
+                for op in ops:
+                    try:
+                        op(obj)
+                    except Exception:  # noqa: BLE001  (unhashable, unpicklable ...: not a matter of this property)
+                        pass
+                second = fp(compute(P, obj))
+                if first != second:
+                    raise _Verdict('history_dependence',
+                                   f'{label}: the same computation on the same object gives a different result after the '
+                                   'object was displayed / copied / pickled / compared', family='display', factory=label,
+                                   needs_mutation=False)
+            return run
+        return build
+
+    x7 = lambda: _arr(np.linspace(0.0, 10.0, 7), 'angstrom')  # noqa: E731
+    gp7 = lambda pre: {pre + 'amplitude': sc.scalar(2.0), pre + 'loc': _s(4.0, 'angstrom'), pre + 'scale': _s(0.3, 'angstrom')}  # noqa: E731
+    displayables = {
+        'DiskChopper': (lambda P, A, O, rng: disk(P, A, [10.0 + rng.random(), 100.0], [60.0, 150.0], f=-14.0),
+                        lambda P, o: (o.time_offset_open(pulse_frequency=_s(14.0, 'Hz')), o.open_duration(pulse_frequency=_s(14.0, 'Hz')))),
+        'Chopper': (lambda P, A, O, rng: chopper(P, A, 8.0 + rng.random(), 'm', [15e-3, 5e-3], [20e-3, 9e-3]),
+                    lambda P, o: frame(P, lambda v: v).chop(o)),
+        'Frame': (lambda P, A, O, rng: frame(P, A).chop(chopper(P, A, 8.0 + rng.random(), 'm', [15e-3, 5e-3], [20e-3, 9e-3])),
+                  lambda P, o: (o.bounds(), o.subbounds(), o.propagate_to(_s(20.0, 'm')))),
+        'FrameSequence': (lambda P, A, O, rng: P.CC.FrameSequence.from_source_pulse(**source(P, A)).chop(
+            [chopper(P, A, 8.0 + rng.random(), 'm', [5e-3], [9e-3])]),
+            lambda P, o: (o[_s(12.0, 'm')], o.propagate_to(_s(20.0, 'm')).frames[-1])),
+        'GaussianModel': (lambda P, A, O, rng: P.peaks.model.GaussianModel(prefix=f'g{rng.integers(9)}_'),
+                          lambda P, o: (o(x7(), **gp7(o.prefix)), o.fwhm(gp7(o.prefix)), sorted(o.param_bounds.items()))),
+        'CompositeModel': (lambda P, A, O, rng: P.peaks.model.GaussianModel(prefix=f'g{rng.integers(9)}_') + P.peaks.model.PolynomialModel(degree=1, prefix='p_'),
+                           lambda P, o: (sorted(o.param_names), sorted(o.param_bounds.items()), o.guess(spectrum(np.random.Generator(np.random.PCG64(3)))))),
+        'FitResult': (lambda P, A, O, rng: clean_fit(P, rng)[1][0],
+                      lambda P, o: (o.eval_model(x7()), o.eval_peak(x7()), o.report(), [getattr(o, a, None) for a in ('popt', 'red_chisq', 'aic', 'p_value', 'assessment')])),
+        'FitParameters': (lambda P, A, O, rng: P.peaks.FitParameters(neighbor_separation_factor=-0.5 - rng.random()),
+                          lambda P, o: [(r.popt, r.assessment) for r in P.peaks.fit_peaks(
+                              spectrum(np.random.Generator(np.random.PCG64(3))), peak_estimates=_arr([4.0, 6.5], 'angstrom'),
+                              windows=_s(2.0, 'angstrom'), background='linear', peak='gaussian', fit_parameters=o)]),
+        'Cylinder': (lambda P, A, O, rng: cylinder2(P, A, radius=0.5 + rng.random()),
+                     lambda P, o: (o.quadrature('cheap'), o.center, o.volume, o.beam_intersection(_vecs([[0.1, 0.0, 0.0]], 'cm'), _vecs([[0.0, 0.0, 1.0]], 'one')))),
+        'Material': (lambda P, A, O, rng: material2(P, A, O, density=0.07 + rng.random()),
+                     lambda P, o: o.attenuation_coefficient(_arr([0.5, 1.8], 'angstrom', dim='wavelength'))),
+        'Atom': (lambda P, A, O, rng: P.Atom.for_isotope(['V', 'H', 'Si'][rng.integers(3)]),
+                 lambda P, o: [getattr(o, a, None) for a in ('atomic_weight', 'z', 'isotope')]),
+        'ScatteringParams': (lambda P, A, O, rng: P.ScatteringParams.for_isotope(['V', 'H', 'Si'][rng.integers(3)]),
+                             lambda P, o: P.Material(scattering_params=o, effective_sample_number_density=_s(0.07, '1/angstrom^3')
+                                                     ).attenuation_coefficient(_arr([0.5, 1.8], 'angstrom', dim='wavelength'))),
+        # (authors without a role: every save of a builder draws fresh ids for the roles of its authors from a
+        # counter, so the text of a builder whose authors have roles differs from save to save -- reported, not judged)
+        'CIF': (lambda P, A, O, rng: P.cif.CIF(f'n{rng.integers(9)}').with_reduced_powder_data(A(powder(rng))).with_authors(
+            people(P)['plain']), lambda P, o: _cif_text(P, o)),
+        'Block': (lambda P, A, O, rng: P.cif.Block(f'b{rng.integers(9)}', [P.cif.Chunk({'a.b': 1}, comment='c'),
+                                                                           P.cif.Loop({'l.x': A(sc.arange('i', 3.0, unit='m'))})]),
+                  lambda P, o: _cif_text(P, o)),
+        'SqwIXExperiment': (lambda P, A, O, rng: sqw_experiments(P, A, n=1)[0],
+                            lambda P, o: _sqw_bytes(P, [o], sqw_pixels(np.random.Generator(np.random.PCG64(3)), 7))),
+        'Person': (lambda P, A, O, rng: list(people(P).values())[rng.integers(3)],
+                   lambda P, o: _cif_text(P, P.cif.CIF('a').with_authors(o))),
+        'elastic-graph': (lambda P, A, O, rng: P.GT.elastic('tof'),
+                          lambda P, o: beamline_da(np.random.Generator(np.random.PCG64(3)), _arr([1e3, 2e3], 'us', dim='tof')).transform_coords(
+                              ['wavelength'], graph={**P.GB.beamline(scatter=True), **o})),
+    }
+
+    def _cif_text(P, o):
+        buf = io.StringIO()
+        o.save(buf) if isinstance(o, P.cif.CIF) else P.cif.save_cif(buf, o)
+        return [ln for ln in buf.getvalue().splitlines() if 'audit.creation_date' not in ln]
+
+    def _sqw_bytes(P, exps, pix):
+        buf = io.BytesIO()
+        P.sqw.Sqw.build(buf, byteorder='little').add_pixel_data(pix, experiments=exps).create()
+        raw = buf.getvalue()
+        return len(raw)  # the main header carries the creation time: only the size is comparable
+
+    for label, (make, compute) in displayables.items():
+        case(label, 'display:repr-copy-deepcopy-pickle-eq-between-two-computations', layouts=one_layout())(
+            displayed(make, compute, label))
+
+    # ===================================================== (h) sizes beyond the thresholds inside the code
+    # absorption/base.py switches to a per-detector loop above 20_000_000 (points x detectors); the SQW writer
+    # works through pixels in chunks of 8192; beyond that generic large sizes (2**20 + 7, 3 x 400001) at which
+    # numpy / scipp / TBB change strategy (threaded loops, chunked reductions, buffered text output).
+    N1, N2 = 2**20 + 7, 3 * 400001
+
+    def heavy_case(entry, facet, layouts=('slice',), second=True):
+        def deco(f):
+            f.layouts, f.heavy, f.second = layouts, True, second
+            cases.append((entry, facet, f))
+            return f
+        return deco
+
+    @heavy_case('conversion.tof kernels', f'size:{N1}-elements')
+    def _(P, A, O, rng):
+        pool = {unit: A(_arr(rng.uniform(0.5, 3.0, N1) * (1e3 if unit == 'us' else 1.0), unit))
+                for unit in ('us', 'm', 'rad', 'meV', 'angstrom', '1/angstrom')}
+        return _each(*[lambda name=name, spec=spec: getattr(P.KT, name)(**{arg: pool[unit] for arg, unit in spec})
+                       for name, spec in kernels_1d.items()])
+
+    @heavy_case('conversion.tof kernels', f'size:{N2}-elements-float32-with-variances', layouts=('strided',))
+    def _(P, A, O, rng):
+        pool = {unit: A(with_var(_arr(rng.uniform(0.5, 3.0, N2) * (1e3 if unit == 'us' else 1.0), unit, dtype='float32'),
+                                 'some-negative', 'float32'))
+                for unit in ('us', 'm', 'rad', 'meV', 'angstrom', '1/angstrom')}
+        return _each(*[lambda name=name, spec=spec: getattr(P.KT, name)(**{arg: pool[unit] for arg, unit in spec})
+                       for name, spec in kernels_1d.items()])
+
+    @heavy_case('conversion.beamline kernels', f'size:{N1}-detectors')
+    def _(P, A, O, rng):
+        b1, g = A(_vec([0.0, 0.0, 25.0])), A(_vec(g_std, 'm/s^2'))
+        b2 = A(_vecs(rng.normal(size=(N1, 3)) + [0.0, 0.2, 4.0]))
+        lam = A(_arr(rng.uniform(1, 10, N1) * 1e-10, 'm'))
+        return _each(lambda: P.KB.scattering_angles_with_gravity(incident_beam=b1, scattered_beam=b2, wavelength=lam, gravity=g),
+                     lambda: P.KB.scattering_angle_in_yz_plane(incident_beam=b1, scattered_beam=b2, wavelength=lam, gravity=g),
+                     lambda: P.KB.two_theta(incident_beam=b1, scattered_beam=b2), lambda: P.KB.L2(scattered_beam=b2),
+                     lambda: P.KB.two_theta(incident_beam=b2, scattered_beam=b2))
+
+    @heavy_case('convert', f'size:{N2}-events-in-4096-pixels-with-masks')
+    def _(P, A, O, rng):
+        npix = 4096
+        table = sc.DataArray(
+            sc.array(dims=['event'], values=rng.uniform(0.5, 2.0, N2), variances=rng.uniform(-1e-9, 1.0, N2), unit='counts'),
+            coords={'tof': _arr(rng.uniform(1e3, 1e4, N2), 'us', dim='event')},
+            masks={'em': sc.array(dims=['event'], values=rng.random(N2) < 0.1)})
+        cuts = np.sort(rng.integers(0, N2 + 1, size=npix - 1))
+        da = sc.DataArray(sc.bins(begin=sc.array(dims=['x'], values=np.concatenate([[0], cuts]), unit=None, dtype='int64'),
+                                  end=sc.array(dims=['x'], values=np.concatenate([cuts, [N2]]), unit=None, dtype='int64'),
+                                  dim='event', data=table),
+                          coords={'position': _vecs(rng.normal(size=(npix, 3)) + [0.0, 0.0, 4.0]),
+                                  'source_position': _vec([0.0, 0.0, -25.0]), 'sample_position': _vec([0.0, 0.0, 0.0])},
+                          masks={'pm': sc.array(dims=['x'], values=np.arange(npix) % 3 == 0)})
+        da = A(da)
+        return _each(*[lambda tgt=tgt: P.scn.convert(da, 'tof', tgt, scatter=True) for tgt in ('wavelength', 'dspacing', 'Q', 'energy')])
+
+    @heavy_case('compute_transmission_map', 'size:points-x-detectors-beyond-20_000_000', second=False)
+    def _(P, A, O, rng):
+        cyl, mat = O(cylinder(P, A, 'axis-tilted')), O(material(P, A))
+        b, w = A(_vec([0.0, 0.1, 3.0], 'one')), A(_arr([0.5, 5.0], 'angstrom', dim='wavelength'))
+        few = A(_vecs(rng.normal(size=(11, 3)) * 100, 'cm'))
+        # (sample points drawn by the package's Monte-Carlo quadrature: 11 detectors x 1818182 points)
+        return lambda: P.compute_transmission_map(cyl, mat, beam_direction=b, wavelength=w, detector_position=few,
+                                                  quadrature_kind=('mc', 20_000_000 // 11 + 1))
+
+    for npx in (8192, 8193, 2 * 8192 + 5):
+        @heavy_case('SqwBuilder.create', f'size:{npx}-pixels-chunks-of-8192', layouts=('strided',))
+        def _(P, A, O, rng, npx=npx):
+            exps, pix = O(sqw_experiments(P, A)), A(sqw_pixels(rng, npx, var=var_classes['some-negative']))
+            return _each(lambda: P.sqw.Sqw.build(io.BytesIO(), byteorder='big').add_pixel_data(pix, experiments=exps).create(),
+                         lambda: P.sqw.Sqw.build(io.BytesIO(), byteorder='native').add_pixel_data(pix, experiments=exps).create(chunk_size=npx - 1))
+
+    @heavy_case('io text writers', 'size:400001-and-16385-rows', second=False)
+    def _(P, A, O, rng):
+        def tab(n, dt):
+            return sc.DataArray(sc.array(dims=['tof'], values=rng.normal(size=n).astype(dt), variances=rng.uniform(-1e-9, 1.0, n).astype(dt)),
+                                coords={'tof': _arr(np.arange(n, dtype=float), 'us', dim='tof')})
+        big, mid = A(tab(400001, 'float64')), A(tab(2**14 + 1, 'float32'))
+        return _each(lambda: P.save_xye(io.StringIO(), big),
+                     lambda: P.cif.CIF('a').with_reduced_powder_data(mid).save(io.StringIO()))
+
+    @heavy_case('peaks / filtering / cascade', 'size:large-1d-data')
+    def _(P, A, O, rng):
+        n = 2**16 + 1
+        x = np.linspace(0.0, 10.0, n)
+        y = 5 * np.exp(-((x - 4.0) / 0.3) ** 2) + 3 * np.exp(-((x - 6.5) / 0.25) ** 2) + 1.0 + rng.normal(size=n) * 0.05
+        da = A(sc.DataArray(sc.array(dims=['x'], values=y, variances=np.full(n, 0.05**2)), coords={'x': _arr(x, 'angstrom')}))
+        e, w = A(_arr([4.0, 6.5], 'angstrom')), A(_s(2.0, 'angstrom'))
+        fpar = O(P.peaks.FitParameters(neighbor_separation_factor=-0.5))
+        lvl = np.repeat([1.0, 5.0, -2.0, 7.0], N1 // 4 + 1)[:N1]
+        sig = A(sc.DataArray(_arr(lvl, 'Hz', dim='time'), coords={'time': _arr(np.arange(N1, dtype=float), 's', dim='time')}))
+        atol = A(_s(0.01, 'Hz/s'))
+        t, wl = A(_arr(rng.uniform(0, 3e-3, N1), 's', dim='vertex')), A(_arr(rng.uniform(1, 10, N1), 'angstrom', dim='vertex'))
+        nc = 513
+        opens = np.arange(nc) * 1e-4
+        fr, ch = O(frame(P, A)), O(chopper(P, A, 8.0, 'm', list(opens), list(opens + 5e-5)))
+        dc = O(disk(P, A, list(np.arange(1025) * 0.3), list(np.arange(1025) * 0.3 + 0.2)))
+        pf = A(_s(14.0, 'Hz'))
+
+        def fit():
+            res = P.peaks.fit_peaks(da, peak_estimates=e, windows=w, background='linear', peak='gaussian', fit_parameters=fpar)
+            P.peaks.remove_peaks(sc.DataArray(sc.values(da.data), coords={'x': da.coords['x']}), res)
+        return _each(fit, lambda: P.filtering.collapse_plateaus(P.filtering.find_plateaus(sig, atol=atol, min_n_points=3)),
+                     lambda: P.CC.propagate_times(t, wl, A(_s(10.0, 'm'))), lambda: fr.chop(ch).subbounds(),
+                     lambda: (dc.time_offset_open(pulse_frequency=pf), dc.time_offset_angle_at_beam(angle=A(_arr(rng.uniform(0, 6, N1), 'rad')))),
+                     lambda: P.CC.Chopper.from_disk_chopper(dc, pulse_frequency=pf, npulses=3))
+
     return cases
 
 
-VALUE_CASES = _value_cases()
-VALUE_PARTS = 1
-LAYOUTS = ('plain', 'slice', 'strided')
-NONCANON = sorted({f'noncanon:{e}:{f}' for e, f, _ in VALUE_CASES})
+_ALL_CASES = _value_cases()
+VALUE_CASES = [c for c in _ALL_CASES if not getattr(c[2], 'heavy', False)]
+HEAVY_CASES = [c for c in _ALL_CASES if getattr(c[2], 'heavy', False)]
+VALUE_PARTS = 3
+LAYOUTS = _LAY3
+NONCANON = sorted({f'noncanon:{e}:{f}' for e, f, _ in _ALL_CASES})
+N_NONCANON_RUNS = sum(len(getattr(b, 'layouts', None) or LAYOUTS) for _, _, b in _ALL_CASES)
 
 
-def value_grid(ctx, shard):
+def value_grid(ctx, shard, cases=None):
     """Every computational entry point with arguments that are not in canonical form (see above)."""
     import types
 
     import scippneutron as scn
     from scippneutron import peaks
     from scippneutron.absorption import Cylinder, Material, compute_transmission_map
-    from scippneutron.atoms import ScatteringParams
+    from scippneutron import metadata
+    from scippneutron.atoms import Atom, ScatteringParams
     from scippneutron.chopper import DiskChopper, extract_chopper_from_nexus, filtering
     from scippneutron.conversion import beamline as KB
     from scippneutron.conversion import tof as KT
@@ -1316,19 +2712,28 @@ def value_grid(ctx, shard):
     P = types.SimpleNamespace(scn=scn, peaks=peaks, Cylinder=Cylinder, Material=Material,
                               compute_transmission_map=compute_transmission_map, ScatteringParams=ScatteringParams,
                               DiskChopper=DiskChopper, extract_chopper_from_nexus=extract_chopper_from_nexus,
-                              filtering=filtering, KB=KB, KT=KT, GB=GB, GT=GT, cif=cif, save_xye=save_xye, sqw=sqw, CC=CC)
+                              filtering=filtering, KB=KB, KT=KT, GB=GB, GT=GT, cif=cif, save_xye=save_xye, sqw=sqw, CC=CC,
+                              metadata=metadata, Atom=Atom)
     origin = {'v': 'value_grid'}
     mm = make_monitor(ctx, origin)
     tr = Tracer()
     part, nparts = shard.get('part', 0), shard.get('nparts', 1)
+    slow = []
     try:
         with tr:
             for rep in range(shard['reps']):
-                for k, (entry, facet, build) in enumerate(VALUE_CASES):
+                for k, (entry, facet, build) in enumerate(VALUE_CASES if cases is None else cases):
                     if k % nparts != part:
                         continue
                     reached = False
+                    t_case = time.time()
+                    lays = [i for i, x in enumerate(LAYOUTS) if not getattr(build, 'layouts', None) or x in build.layouts]
+                    second_li = lays[k % len(lays)]  # the layout in which the call is made a second time
+                    if not getattr(build, 'second', True):  # (the two longest heavy cases are run once)
+                        second_li = None
                     for li, layout in enumerate(LAYOUTS):
+                        if getattr(build, 'layouts', None) and layout not in build.layouts:
+                            continue
                         rng = np.random.Generator(np.random.PCG64([shard['seed'], 9009, rep, k, li]))
                         owned = []  # [object, fingerprint when the caller made it]
 
@@ -1352,19 +2757,36 @@ def value_grid(ctx, shard):
                             ctx.count(f'noncanon case not built: {entry}:{facet}: {type(e).__name__}')
                             thunk = None
                         j1 = mm.judged
-                        if thunk is not None:
-                            try:
-                                thunk()
-                            except Exception as e:  # noqa: BLE001  (raising is allowed; writing while raising is not)
-                                ctx.count(f'noncanon case raised: {entry}:{facet}: {type(e).__name__}')
-                        changed = [o for o, was in owned if fp(o) != was]
-                        if changed:
-                            ctx.violation('owner_buffer_modified',
-                                          f'{label}: {len(changed)} caller-owned object(s) handed to the call (an '
-                                          'argument, or the buffer an argument is a slice of) changed',
-                                          {'label': label, 'workload': 'value_grid',
-                                           'changed': [describe(o) for o in changed[:3]]},
-                                          function=entry)
+                        # FIRST use, then the very same call with the very same objects once more (SECOND use: whatever
+                        # the first call left behind -- caches, half-done work of a call that raised -- is in place now)
+                        raised = False
+                        for use in (('first', 'second') if li == second_li else ('first',)):
+                            if thunk is not None:
+                                origin['v'] = 'value_grid' if use == 'first' else 'value_grid (second use of the same objects)'
+                                try:
+                                    thunk()
+                                except _Verdict as v:
+                                    ctx.violation(v.kind, v.what, {'label': label, 'workload': 'value_grid', 'use': use}, **v.keys)
+                                except Exception as e:  # noqa: BLE001  (raising is allowed; writing while raising is not)
+                                    if use == 'first':
+                                        ctx.count(f'noncanon case raised: {entry}:{facet}: {type(e).__name__}')
+                                    raised = True
+                            changed = [o for o, was in owned if fp(o) != was]
+                            if changed:
+                                ctx.violation('owner_buffer_modified',
+                                              f'{label}: {len(changed)} caller-owned object(s) handed to the call (an '
+                                              'argument, or the buffer an argument is a slice of) changed'
+                                              + (' in the second use of the same objects' if use == 'second' else ''),
+                                              {'label': label, 'workload': 'value_grid', 'use': use,
+                                               'changed': [describe(o) for o in changed[:3]]},
+                                              function=entry)
+                                break
+                            if thunk is None:
+                                break
+                            if use == 'second':
+                                ctx.event('second_use_case')
+                                ctx.hit('second-use:after-a-call-that-raised' if raised else 'second-use:after-a-call-that-returned')
+                        origin['v'] = 'value_grid'
                         ctx.event('noncanon_case')
                         ctx.case(('noncanon', entry, facet, layout), n=max(1, mm.judged - j0))
                         if thunk is not None and mm.judged > j1:
@@ -1372,14 +2794,121 @@ def value_grid(ctx, shard):
                             ctx.hit('noncanon-layout:' + layout)
                     if reached:
                         ctx.hit(f'noncanon:{entry}:{facet}')
+                    slow.append((round(time.time() - t_case, 2), f'{entry}:{facet}'))
+            if part == 0 and cases is None:
+                fingerprint_probe(ctx, P)
         for qn in mm.reached:
             ctx.classes.add('reached:' + qn)
         ctx.event('mutation_monitor.judged_calls', mm.judged)
         ctx.event('mutation_monitor.observed_calls', mm.events)
         ctx.extra['functions_armed'] = len(mm.functions)
         ctx.extra['value_grid_cases'] = len(VALUE_CASES)
+        ctx.extra[f'slowest_cases:{shard["kind"]}:{part}'] = sorted(slow, reverse=True)[:12]
     finally:
         mm.uninstall()
+
+
+def fingerprint_probe(ctx, P):
+    """Every verdict of oracle A rests on fp() seeing a change of a caller-owned object.  For every kind of object the
+    workloads hand over -- scipp objects written through their numpy views, slots dataclasses, pydantic models,
+    mapping stand-ins, plain namespaces -- one field of a private object is changed the way an in-place write would
+    change it, and the fingerprint must differ.  A blind spot makes the run inconclusive, never silent."""
+    import collections
+    import types
+
+    def var():
+        return sc.array(dims=['x'], values=[1.0, 2.0, 3.0], variances=[0.5, -1e-9, 0.0], unit='m')
+
+    def da():
+        return sc.DataArray(var(), coords={'x': sc.arange('x', 3.0, unit='s')},
+                            masks={'m': sc.array(dims=['x'], values=[False, True, False])})
+
+    def binned():
+        table = sc.DataArray(sc.array(dims=['event'], values=[1.0, 2.0, 3.0], variances=[1.0, -1.0, 0.0]),
+                             coords={'tof': sc.arange('event', 3.0, unit='us')},
+                             masks={'em': sc.array(dims=['event'], values=[False, False, True])})
+        return sc.DataArray(sc.bins(begin=sc.array(dims=['x'], values=[0, 1], unit=None), dim='event', data=table))
+
+    def setitem(view, i, v):
+        view[i] = v
+
+    class Sub(P.peaks.FitParameters):
+        def __init__(self, note, **kw):
+            super().__init__(**kw)
+            self.note = note
+
+    M = P.peaks.model
+    probes = [
+        ('Variable.values view', var, lambda o: setitem(o.values, 1, 7.0)),
+        ('Variable.variances view: negative -> 0', var, lambda o: setitem(o.variances, 1, 0.0)),
+        ('Variable.variances view: 0.0 -> -0.0', var, lambda o: setitem(o.variances, 2, -0.0)),
+        ('DataArray.variances view', da, lambda o: setitem(o.variances, 1, 0.0)),
+        ('DataArray mask flipped', da, lambda o: setitem(o.masks['m'].values, 0, True)),
+        ('DataArray mask added', da, lambda o: o.masks.__setitem__('n', sc.array(dims=['x'], values=[False] * 3))),
+        ('DataArray name', da, lambda o: setattr(o, 'name', 'intensity_norm')),
+        ('DataArray coord view', da, lambda o: setitem(o.coords['x'].values, 0, 9.0)),
+        ('binned event weight variance', binned, lambda o: setitem(o.bins.constituents['data'].variances, 1, 0.0)),
+        ('binned event mask', binned, lambda o: setitem(o.bins.constituents['data'].masks['em'].values, 0, True)),
+        ('0-d element of a buffer', lambda: sc.concat([sc.scalar(1.0, unit='m')] * 3, 'b'), lambda o: o['b', 1].__imul__(2.0)),
+        ('FitParameters (slots dataclass)', lambda: P.peaks.FitParameters(neighbor_separation_factor=-0.5),
+         lambda o: setattr(o, 'neighbor_separation_factor', 0.0)),
+        ('FitParameters -0.0 -> 0.0', lambda: P.peaks.FitParameters(neighbor_separation_factor=-0.0),
+         lambda o: setattr(o, 'neighbor_separation_factor', 0.0)),
+        ('FitParameters np.float64 -> float', lambda: P.peaks.FitParameters(neighbor_separation_factor=np.float64(0.5)),
+         lambda o: setattr(o, 'neighbor_separation_factor', 0.5)),
+        ('FitRequirements (slots dataclass)', lambda: P.peaks.FitRequirements(), lambda o: setattr(o, 'min_p_value', 0.5)),
+        ('FitParameters subclass: slot', lambda: Sub('n', neighbor_separation_factor=2.0), lambda o: setattr(o, 'neighbor_separation_factor', 1.0)),
+        ('FitParameters subclass: __dict__', lambda: Sub('n'), lambda o: setattr(o, 'note', 'm')),
+        ('SimpleNamespace stand-in', lambda: types.SimpleNamespace(a=1.5), lambda o: setattr(o, 'a', 1.0)),
+        ('UserDict stand-in', lambda: collections.UserDict({'a': 1}), lambda o: o.__setitem__('a', 2)),
+        ('Person (pydantic)', lambda: P.metadata.Person(name='J', role=None), lambda o: setattr(o, 'role', 'x')),
+        ('Person (pydantic) via __dict__', lambda: P.metadata.Person(name='J'), lambda o: o.__dict__.__setitem__('name', 'K')),
+        ('Beamline (pydantic)', lambda: P.metadata.Beamline(name='D'), lambda o: setattr(o, 'site', 'x')),
+        ('Source (pydantic)', lambda: P.metadata.ESS_SOURCE.model_copy(), lambda o: setattr(o, 'name', 'x')),
+        ('Software (pydantic)', lambda: P.metadata.Software(name='a', version='1'), lambda o: setattr(o, 'version', '2')),
+        ('Cylinder field in place', lambda: P.Cylinder(symmetry_line=_vec([0, 1.0, 0], 'one'), center_of_base=_vec([0, 0, 0], 'cm'),
+                                                       radius=_s(1.0, 'cm'), height=_s(1.0, 'cm')), lambda o: o.radius.__imul__(2.0)),
+        ('Material field rebound', lambda: P.Material(scattering_params=P.ScatteringParams.for_isotope('V'),
+                                                      effective_sample_number_density=_s(0.07, '1/angstrom^3')),
+         lambda o: object.__setattr__(o, 'effective_sample_number_density', _s(1.0, '1/angstrom^3'))),
+        ('ScatteringParams field rebound', lambda: P.ScatteringParams(isotope='mine', absorption_cross_section=_s(1.0, 'barn')),
+         lambda o: object.__setattr__(o, 'absorption_cross_section', _s(2.0, 'barn'))),
+        ('cif.Chunk comment', lambda: P.cif.Chunk({'a.b': 1}), lambda o: setattr(o, 'comment', 'x')),
+        ('cif.Loop column', lambda: P.cif.Loop({'l.x': sc.arange('i', 3.0)}), lambda o: o.__setitem__('l.y', sc.arange('i', 3.0))),
+        ('cif.Block content', lambda: P.cif.Block('b'), lambda o: o.add({'x.y': 1})),
+        ('cif.CIF comment', lambda: P.cif.CIF('n'), lambda o: setattr(o, 'comment', 'zz')),
+        ('cif.CIFSchema (frozen dataclass)', lambda: P.cif.CIFSchema(name='a', version='1', location='l'),
+         lambda o: object.__setattr__(o, 'name', 'b')),
+        ('SqwIXSample', lambda: P.sqw.SqwIXSample(name='s', lattice_spacing=_vec([2.0, 3.0, 4.0], 'angstrom'),
+                                                  lattice_angle=_vec([90.0, 90.0, 120.0], 'deg')),
+         lambda o: o.lattice_angle.__imul__(2.0)),
+        ('SqwIXSource nested in SqwIXNullInstrument',
+         lambda: P.sqw.SqwIXNullInstrument(name='i', source=P.sqw.SqwIXSource(name='s', target_name='t', frequency=_s(14.0, 'Hz'))),
+         lambda o: setattr(o.source, 'name', 'x')),
+        ('DiskChopper field in place', lambda: P.DiskChopper(
+            axle_position=_vec([0, 0, 8.0]), frequency=_s(14.0, 'Hz'), beam_position=_s(0.0, 'rad'), phase=_s(0.5, 'rad'),
+            slit_begin=_arr([0.0], 'rad', dim='slit'), slit_end=_arr([1.0], 'rad', dim='slit')), lambda o: o.phase.__imul__(2.0)),
+        ('cascade Chopper field rebound', lambda: P.CC.Chopper(distance=_s(8.0, 'm'), time_open=_arr([1.0], 's', dim='cutout'),
+                                                              time_close=_arr([2.0], 's', dim='cutout')),
+         lambda o: object.__setattr__(o, 'distance', _s(9.0, 'm'))),
+        ('Frame subframe list', lambda: P.CC.Frame(distance=_s(0.0, 'm'), subframes=[]), lambda o: o.subframes.append('x')),
+        ('Model prefix', lambda: M.GaussianModel(prefix='a_'), lambda o: setattr(o, '_prefix', 'b_')),
+        ('CompositeModel part', lambda: M.GaussianModel(prefix='a_') + M.PolynomialModel(degree=1, prefix='p_'),
+         lambda o: o._param_names.add('x')),
+        ('list element identity kept, content changed', lambda: [P.peaks.FitParameters()], lambda o: setattr(o[0], 'guess_background_fraction', 0.1)),
+    ]
+    for name, make, change in probes:
+        try:
+            obj = make()
+            before = fp(obj)
+            change(obj)
+            after = fp(obj)
+        except Exception as e:  # noqa: BLE001  (the object cannot be changed that way: nothing to be blind to)
+            ctx.count(f'fingerprint probe not applicable: {name}: {type(e).__name__}')
+            continue
+        ctx.event('fingerprint_probe')
+        if before == after:
+            ctx.inconclusive_because(f'rv.snap.fp is blind to a change of: {name} (a mutation of such an argument would go unnoticed)')
 
 
 # =============================================================== oracle B ===
@@ -1388,6 +2917,27 @@ SENTINEL = object()
 
 def _sentinel_fn(**kw):
     return None
+
+
+def _display(obj):
+    """Look at a result, copy it, pickle it, compare it -- nothing of which is meant to change anything."""
+    import copy
+    import pickle
+
+    if isinstance(obj, _Frozen):
+        obj = obj.obj
+    n = 0
+    for op in (repr, str, lambda o: getattr(o, '_repr_html_', lambda: None)(), copy.copy, copy.deepcopy,
+               lambda o: pickle.loads(pickle.dumps(o)), lambda o: o == o, lambda o: o == copy.deepcopy(o), lambda o: o != 'x',
+               lambda o: hash(o), lambda o: sorted(o) if isinstance(o, dict | set) else None,
+               lambda o: [getattr(o, a, None) for a in dir(o) if not a.startswith('_')
+                          and isinstance(getattr(type(o), a, None), property)]):
+        try:
+            op(obj)
+            n += 1
+        except Exception:  # noqa: BLE001  (unhashable, unpicklable, incomparable: not a matter of this property)
+            pass
+    return n
 
 
 def mutate(obj, depth=0):
@@ -1695,7 +3245,9 @@ def history(ctx, shard):
             ctx.count(f'factory unusable: {nme}: {type(e).__name__}')
             pristine[nme] = None
     names = [nme for nme in names if pristine[nme] is not None]
-    alphabet = [('call', nme) for nme in names] + [('mutate', k) for k in range(2)]
+    # 'display' = what happens to a result between two computational calls without anybody meaning to change
+    # anything: repr / str / copy / deepcopy / pickle / == (objects with lazily filled caches, __eq__ that normalises ...)
+    alphabet = [('call', nme) for nme in names] + [('mutate', k) for k in range(2)] + [('display', k) for k in range(2)]
     maxlen = shard['maxlen']
     first = shard.get('first')  # shard over the first symbol
     total = 0
@@ -1708,9 +3260,15 @@ def history(ctx, shard):
             results = []
             valid = True
             nmut = 0
+            ndisp = 0
             for s in seq:
                 kind, arg = alphabet[s]
-                if kind == 'call':
+                if kind == 'display':
+                    if arg >= len(results):
+                        valid = False
+                        break
+                    ndisp += _display(results[arg])
+                elif kind == 'call':
                     try:
                         results.append(F[arg]())
                     except Exception as e:  # noqa: BLE001
@@ -1737,6 +3295,8 @@ def history(ctx, shard):
             ctx.event('history_sequence')
             if nmut:
                 ctx.event('history_sequence_with_mutation')
+            if ndisp:
+                ctx.event('history_sequence_with_display')
             ctx.case((fam, seq))
             if total <= 2:
                 ctx.sample({'family': fam, 'sequence': [list(alphabet[i]) for i in seq], 'mutations_applied': nmut})
@@ -1792,10 +3352,14 @@ def pytest_shard(ctx, shard):
 
 # ================================================================ driver ===
 def plan(tier, seed):
-    shards = [{'kind': 'alias', 'reps': 1 if tier == 'quick' else 4}]
+    shards = [{'kind': 'alias', 'reps': 1 if tier == 'quick' else 4}]  # (index 0: also run as the environment variants)
+    # the longest shards first, so that they do not start when everything else is done
+    order = sorted(REUSE, key=lambda m: m not in ('c17', 'c02', 'c13'))
+    shards.append({'kind': 'reuse', 'module': order[0], 'n_sub': 1 if tier == 'quick' else 3})
+    shards.append({'kind': 'heavy', 'reps': 1})
     for part in range(VALUE_PARTS):
         shards.append({'kind': 'values', 'reps': 1 if tier == 'quick' else 3, 'part': part, 'nparts': VALUE_PARTS})
-    for m in REUSE:
+    for m in order[1:]:
         shards.append({'kind': 'reuse', 'module': m, 'n_sub': 1 if tier == 'quick' else 3})
     for fam in HISTORY_FAMILIES:
         if fam == 'graphs':
@@ -1813,8 +3377,10 @@ def plan(tier, seed):
 
 def requirements(tier):
     return {'events': {'mutation_monitor.judged_calls': 5000, 'alias_case': 100, 'history_sequence': 1000,
-                       'history_sequence_with_mutation': 200, 'noncanon_case': len(LAYOUTS) * len(VALUE_CASES)},
-            'forced': [*NONCANON, *('noncanon-layout:' + x for x in LAYOUTS)]}
+                       'history_sequence_with_mutation': 200, 'noncanon_case': N_NONCANON_RUNS,
+                       'second_use_case': len(_ALL_CASES) - 2, 'fingerprint_probe': 20, 'history_sequence_with_display': 200},
+            'forced': [*NONCANON, *('noncanon-layout:' + x for x in LAYOUTS), 'second-use:after-a-call-that-raised',
+                       'second-use:after-a-call-that-returned']}
 
 
 def run(shard, ctx):
@@ -1823,6 +3389,8 @@ def run(shard, ctx):
         alias_grid(ctx, shard)
     elif shard['kind'] == 'values':
         value_grid(ctx, shard)
+    elif shard['kind'] == 'heavy':
+        value_grid(ctx, shard, HEAVY_CASES)
     elif shard['kind'] == 'reuse':
         reuse_shard(ctx, shard)
     elif shard['kind'] == 'history':
@@ -1840,7 +3408,7 @@ TECHNIQUE = ('universal argument-mutation monitor (sys.monitoring on every code 
 LEVEL_TEXT = ('exploration with an exhaustive part: (A) every call that crosses the package boundary in the hostile '
               'workloads of all other properties, in a dedicated aliasing grid (arguments already in the converted-to '
               'unit/dtype, slices of caller-owned buffers), in a value grid (arguments not in the canonical form the '
-              'code normalises to: a forced class per entry point and facet, three buffer layouts) and, in the thorough tier, in the repository test-suite, has '
+              'code normalises to, configuration objects, variance / mask value classes, calling conventions, stand-ins, second use: a forced class per entry point and facet, three buffer layouts) and, in the thorough tier, in the repository test-suite, has '
               'all its argument objects fingerprinted bit-exactly before and after; (B) for graph factories, table '
               'lookups, model and CIF builder combinators all call/mutate histories up to length 3 (thorough; 2 for the '
               'large graph family in quick) are enumerated and every factory must keep returning its pristine value.')
